@@ -1,8 +1,19 @@
 import BufProofs.Lemmas.CaseLemmas
 import BufProofs.Lemmas.LintLemmas
+import BufProofs.Lemmas.LintSpec2
+import BufProofs.Lemmas.LintWitness
 /-
   C05 — Lint reports exactly the style violations that are present.
-  Property theorems only; helper lemmas live in BufProofs/Lemmas/{CaseLemmas,LintLemmas}.lean.
+  Property theorems only; helper lemmas live in BufProofs/Lemmas/:
+    CaseLemmas   (case conversions, version grammar)
+    LintLemmas   (good ⇒ ¬bad, grouping, imports skipped, nested visiting)
+    LintMap      (transformers `Tr`, `mapFile`; every iteration helper commutes with them; source
+                  paths are pairwise distinct)
+    LintFrame    (frame lemmas: congruence of the multi-file rules, `frame_deep`)
+    LintPlant    (generic planting machinery), LintOps / LintOps2 / LintOps3 (the planting
+                  operators and their per-group frame lemmas)
+    LintSpec / LintSpec2 (set-level specifications; documentation-level readings of `good`)
+    LintWitness  (the concrete multi-file workspace of the non-vacuity examples)
 -/
 namespace BufProofs.C05
 open BufModel.Case BufModel.Lint
@@ -17,24 +28,11 @@ theorem pascal_accepts (s : Str) (h : isPascalIdent s = true) : toPascalCase s =
 /-- A name containing an underscore (or any other delimiter: '.', '-', space, tab, CR, LF) is
     never a fixpoint of ToPascalCase. -/
 theorem pascal_rejects_underscore (s : Str) (c : Char) (hc : c ∈ s) (hd : isDelimiter c = true) :
-    toPascalCase s ≠ s := by
-  intro e
-  have := pascalGo_no_delim true (trimSpace s) c (by unfold toPascalCase at e; rw [e]; exact hc)
-  simp [this] at hd
+    toPascalCase s ≠ s := toPascalCase_ne_of_delim s c hc hd
 
 /-- A name starting with a lower-case letter is never a fixpoint of ToPascalCase. -/
 theorem pascal_rejects_lower_first (c : Char) (cs : Str) (hl : isLower c = true) :
-    toPascalCase (c :: cs) ≠ c :: cs := by
-  intro e
-  have hsp : isSpace c = false := alnum_not_space c (lower_alnum c hl)
-  have hdl : isDelimiter c = false := alnum_not_delim c (lower_alnum c hl)
-  unfold toPascalCase trimSpace trimBoth at e
-  rw [List.dropWhile_cons_of_neg (by simp [hsp])] at e
-  obtain ⟨r, hr⟩ := dropEnd_cons_of_not isSpace c cs hsp
-  rw [hr] at e
-  simp only [pascalGo, hdl, Bool.true_or] at e
-  simp at e
-  exact toUpper_ne_of_lower c hl e.1
+    toPascalCase (c :: cs) ≠ c :: cs := toPascalCase_ne_of_lower_first c cs hl
 
 /-- `[a-z0-9]+(_[a-z0-9]+)*` names are fixpoints of ToLowerSnakeCase (as the lint rules call it:
     without SnakeCaseWithNewWordOnDigits). -/
@@ -43,12 +41,7 @@ theorem lowerSnake_accepts (s : Str) (h : isLowerSnakeIdent s = true) : toLowerS
 
 /-- A name containing an upper-case letter is never a fixpoint of ToLowerSnakeCase. -/
 theorem lowerSnake_rejects_upper (b : Bool) (s : Str) (c : Char) (hc : c ∈ s) (hu : isUpper c = true) :
-    toLowerSnakeCase b s ≠ s := by
-  intro e
-  rw [← e] at hc
-  unfold toLowerSnakeCase at hc
-  obtain ⟨y, _, rfl⟩ := List.mem_map.mp hc
-  simp [isUpper_toLower] at hu
+    toLowerSnakeCase b s ≠ s := toLowerSnakeCase_ne_of_upper b s c hc hu
 
 /-- `[A-Z0-9]+(_[A-Z0-9]+)*` names are fixpoints of ToUpperSnakeCase. -/
 theorem upperSnake_accepts (s : Str) (h : isUpperSnakeIdent s = true) : toUpperSnakeCase false s = s :=
@@ -56,12 +49,7 @@ theorem upperSnake_accepts (s : Str) (h : isUpperSnakeIdent s = true) : toUpperS
 
 /-- A name containing a lower-case letter is never a fixpoint of ToUpperSnakeCase. -/
 theorem upperSnake_rejects_lower (b : Bool) (s : Str) (c : Char) (hc : c ∈ s) (hl : isLower c = true) :
-    toUpperSnakeCase b s ≠ s := by
-  intro e
-  rw [← e] at hc
-  unfold toUpperSnakeCase at hc
-  obtain ⟨y, _, rfl⟩ := List.mem_map.mp hc
-  simp [isLower_toUpper] at hl
+    toUpperSnakeCase b s ≠ s := toUpperSnakeCase_ne_of_lower b s c hc hl
 
 /-! ## Idempotence -/
 
@@ -141,12 +129,29 @@ theorem version_table :
 
 /-! ## Lint: no false positives, imports skipped, complete nested visiting, exact planting -/
 
-/-- **Clean ⇒ no annotation.**  `cleanB` is the decidable conjunction of syntactic conditions
-    (grammars for names, pairwise agreement for the package/directory/option rules, flags for
-    imports/streaming, a non-excluded comment line …) that the Lean driver EVALUATES on every
-    generated workspace; whenever it holds for the configured rules, the model reports nothing.
-    For PACKAGE_NO_IMPORT_CYCLE, RPC_REQUEST_RESPONSE_UNIQUE and STABLE_PACKAGE_NO_IMPORT_UNSTABLE
-    the clean condition is the rule's own emptiness (their substance is tied by correspondence). -/
+/-- **Clean ⇒ no annotation.**  `cleanB` is the decidable conjunction of the rules' Clean
+    conditions, which the Lean driver EVALUATES on every generated workspace; whenever it holds for
+    the configured rules, the model reports nothing.  How much this says depends on the rule:
+
+    * INDEPENDENT Clean condition (a grammar / a pairwise condition that does not call the coded
+      predicate): the 9 naming rules ENUM_PASCAL_CASE, ENUM_VALUE_UPPER_SNAKE_CASE,
+      FIELD_LOWER_SNAKE_CASE, FILE_LOWER_SNAKE_CASE, MESSAGE_PASCAL_CASE, ONEOF_LOWER_SNAKE_CASE,
+      PACKAGE_LOWER_SNAKE_CASE, RPC_PASCAL_CASE, SERVICE_PASCAL_CASE (grammar ⇒ fixpoint of the
+      conversion) and the 9 grouping rules DIRECTORY_SAME_PACKAGE, PACKAGE_SAME_DIRECTORY,
+      PACKAGE_SAME_<option> ×7 (pairwise agreement; `clean_iff_silent_group` shows it is exact).
+    * Clean condition = negation of the coded predicate, with a documentation-level reading PROVED
+      equivalent below: COMMENT_* ×7 (`comment_rule_spec`), ENUM_ZERO_VALUE_SUFFIX and
+      SERVICE_SUFFIX (`suffix_rule_spec`), ENUM_VALUE_PREFIX (`prefix_rule_spec`),
+      RPC_REQUEST_STANDARD_NAME and RPC_RESPONSE_STANDARD_NAME (`rpc_standard_name_spec`);
+      PACKAGE_VERSION_SUFFIX one direction only (`package_version_suffix_accepts`, `version_*`).
+    * DEFINITIONAL (the rule IS a flag / a direct comparison, `good := !bad` says nothing more; the
+      clause is carried by the correspondence): ENUM_FIRST_VALUE_ZERO, ENUM_NO_ALLOW_ALIAS,
+      FIELD_NOT_REQUIRED, FIELD_NO_DESCRIPTOR, IMPORT_NO_PUBLIC, IMPORT_NO_WEAK (never reports),
+      IMPORT_USED, PACKAGE_DEFINED, PACKAGE_DIRECTORY_MATCH, RPC_NO_CLIENT_STREAMING,
+      RPC_NO_SERVER_STREAMING, SYNTAX_SPECIFIED; and PACKAGE_NO_IMPORT_CYCLE,
+      RPC_REQUEST_RESPONSE_UNIQUE, STABLE_PACKAGE_NO_IMPORT_UNSTABLE, whose Clean condition is the
+      rule's own emptiness (the latter two have set-level specifications:
+      `violations_exact_rpc_unique`, `violations_exact_stable`). -/
 theorem clean_no_annotations (o : Options) (rules : List Rule) (w : Schema)
     (h : cleanB o rules w = true) : lint o rules w = [] := by
   unfold lint
@@ -182,13 +187,14 @@ theorem nested_visit_complete (f : File) (top x : Message) (ht : top ∈ f.msgs)
   apply List.mem_flatMap.mpr
   exact ⟨(p, x), hp, List.mem_map.mpr ⟨(j, e), hj, rfl⟩⟩
 
-/-- **Exact planting (all 34 per-element rules at once).**  Let `r` be a configured per-element
-    rule.  If every other configured rule is Clean on the planted workspace, every element of
-    the rule's kind is `good` except ONE element `e` of ONE non-import file `f` which is `bad`,
-    then lint reports exactly one annotation: rule `r` at `locOf e` in `f` — nothing else, for
-    no other rule.  Both hypotheses are decidable; the driver evaluates the first on every
-    planted workspace (`others=`), the correspondence checks the conclusion on the real code. -/
-theorem plant_exact_elem (o : Options) (rules : List Rule) (w : Schema) (r : Rule) (er : ElemRule)
+/-- GENERIC LIST ALGEBRA, kept for reference (audit S1): this is NOT a planting theorem.  Its
+    hypotheses speak about the PLANTED workspace and are the conclusion in disguise ("every other
+    rule is Clean", "every other element is good", "this element is bad"); it holds for any
+    `ElemRule` whatsoever and buf enters only through `good_not_bad`.  The planting theorems proper
+    are the `plant_*` theorems below: they start from `cleanB` of the ORIGINAL workspace, a Lean
+    planting operator and an applicability condition on the original element, and derive all of
+    this lemma's hypotheses from frame lemmas and the grammar theorems. -/
+theorem plant_exact_elem_generic (o : Options) (rules : List Rule) (w : Schema) (r : Rule) (er : ElemRule)
     (he : elemRule r = some er) (pre post : List Rule) (hrules : rules = pre ++ r :: post)
     (hother : ∀ r' ∈ pre ++ post, cleanRule o w r' = true)
     (f : File) (fpre fpost : List File) (hw : nonImport w = fpre ++ f :: fpost)
@@ -333,5 +339,1548 @@ example : lint {} Rule.all exKindsPlantFileExtName =
     this tree.  Documented here; replayed by the harness (plant IMPORT_NO_WEAK). -/
 theorem import_no_weak_counterexample :
     lint {} [.IMPORT_NO_WEAK] (exPlantWeak) = [] := by decide
+
+/-! ## What `good` means in the words of the rule documentation (audit S2)
+
+  For the rules whose Clean condition is the negation of the coded predicate, an INDEPENDENT
+  reading is proved equivalent to it.  (The flag rules are definitional, see `clean_no_annotations`.) -/
+
+/-- COMMENT_* (all seven; `ex` = the one exclude prefix bufcheck.Client passes, "buf:lint:ignore"):
+    a leading comment is accepted iff it has a line with a non-space character that, trimmed, does
+    not start with `ex`. -/
+theorem comment_rule_spec (ex c : Str) :
+    validLeadingComment [ex] c = true ↔
+      ∃ line ∈ splitLines c, (∃ ch ∈ line, isSpace ch = false) ∧ ¬ ∃ rest, trimSpace line = ex ++ rest :=
+  validLeadingComment_single_iff ex c
+
+/-- ENUM_ZERO_VALUE_SUFFIX and SERVICE_SUFFIX: the Clean condition is "ends with the configured
+    suffix" (the zero value / the service name is `<something><suffix>`). -/
+theorem suffix_rule_spec (o : Options) (p : List Nat) (e : Enum) (v : EnumValue) (s : Service) :
+    (((elemRule .ENUM_ZERO_VALUE_SUFFIX).get rfl).good o (p, e, v) = true ↔
+      v.number ≠ 0 ∨ ∃ pre, v.name = pre ++ o.zeroSuffix) ∧
+    (((elemRule .SERVICE_SUFFIX).get rfl).good o (p, s) = true ↔ ∃ pre, s.name = pre ++ o.svcSuffix) := by
+  constructor
+  · show (v.number != 0 || hasSuffix o.zeroSuffix v.name) = true ↔ _
+    simp only [Bool.or_eq_true, bne_iff_ne, ne_eq, hasSuffix_iff]
+  · exact hasSuffix_iff _ _
+
+/-- ENUM_VALUE_PREFIX: the value name is `<UPPER_SNAKE_CASE of the enum name>_<something>`. -/
+theorem prefix_rule_spec (o : Options) (p : List Nat) (e : Enum) (v : EnumValue) :
+    ((elemRule .ENUM_VALUE_PREFIX).get rfl).good o (p, e, v) = true ↔
+      ∃ rest, v.name = toUpperSnakeCase false e.name ++ ['_'] ++ rest :=
+  hasPrefix_iff _ _
+
+/-- RPC_REQUEST_STANDARD_NAME / RPC_RESPONSE_STANDARD_NAME, for PascalCase RPC and service names:
+    the message is named `<Rpc>Request` or `<Service><Rpc>Request` (… `Response`), or it is
+    google.protobuf.Empty and that side's allow option is set. -/
+theorem rpc_standard_name_spec (o : Options) (isReq : Bool) (s : Service) (m : Rpc)
+    (hm : isPascalIdent m.name = true) (hs : isPascalIdent s.name = true) :
+    stdNameBad o isReq s m = false ↔
+      ((if isReq then o.rpcAllowGoogleProtobufEmptyRequests else o.rpcAllowGoogleProtobufEmptyResponses) = true ∧
+        (if isReq then m.inType else m.outType) = emptyType) ∨
+      typeBase (if isReq then m.inType else m.outType) =
+        m.name ++ (if isReq then "Request".toList else "Response".toList) ∨
+      typeBase (if isReq then m.inType else m.outType) =
+        s.name ++ (m.name ++ (if isReq then "Request".toList else "Response".toList)) :=
+  stdNameBad_iff o isReq s m hm hs
+
+/-- PACKAGE_VERSION_SUFFIX accepts every package `<anything>.v<N>`, 1 ≤ N ≤ 2³¹-1 (the grammar
+    theorem `version_accepts_stable` composed with the rule; the alpha/beta/test forms are covered
+    by `version_table` only). -/
+theorem package_version_suffix_accepts (o : Options) (f : File) (pre ds : Str)
+    (hpkg : f.pkg = pre ++ '.' :: 'v' :: ds) (hne : ds ≠ []) (hd : ds.all isDigit = true)
+    (h1 : 1 ≤ digitsVal ds) (h2 : digitsVal ds ≤ 2147483647) :
+    ((elemRule .PACKAGE_VERSION_SUFFIX).get rfl).bad o f = false := by
+  show (!f.pkg.isEmpty && (versionForPackage false f.pkg).isNone) = false
+  rw [hpkg, versionForPackage_stable pre ds hne hd h1 h2]
+  simp
+
+/-! ## Any number of violations: the annotations ARE the violations -/
+
+/-- **Per-element rules (all 34), exactly.**  For a configured per-element rule `r`, the
+    annotations carrying `r` are exactly: one per enumerated element of a target (non-import) file
+    whose coded predicate holds, at that element's location — however many there are. -/
+theorem violations_exact_elem (o : Options) (rules : List Rule) (w : Schema) (r : Rule) (er : ElemRule)
+    (he : elemRule r = some er) (a : Annotation) :
+    (a ∈ lint o rules w ∧ a.rule = r) ↔
+      r ∈ rules ∧ ∃ f ∈ w, f.isImport = false ∧ ∃ e ∈ er.els f, er.bad o e = true ∧ a = ann r f (er.loc e) := by
+  rw [mem_lint_iff]
+  constructor
+  · rintro ⟨⟨hr, ha⟩, rfl⟩
+    exact ⟨hr, (mem_runRule_elem_iff o w _ er he a).mp ha⟩
+  · rintro ⟨hr, hx⟩
+    have ha := (mem_runRule_elem_iff o w r er he a).mpr hx
+    have hrule := runRule_rule o w r a ha
+    subst hrule
+    exact ⟨⟨hr, ha⟩, rfl⟩
+
+/-- soundness half, for every rule: an annotation of a per-element rule points at a bad element -/
+theorem annotation_has_violation (o : Options) (rules : List Rule) (w : Schema) (a : Annotation)
+    (h : a ∈ lint o rules w) (er : ElemRule) (he : elemRule a.rule = some er) :
+    ∃ f ∈ w, f.isImport = false ∧ a.file = f.path ∧ ∃ e ∈ er.els f, er.bad o e = true ∧ a.path = er.loc e := by
+  obtain ⟨_, f, hf, hni, e, hmem, hbad, ha⟩ := (violations_exact_elem o rules w a.rule er he a).mp ⟨h, rfl⟩
+  exact ⟨f, hf, hni, by rw [ha]; rfl, e, hmem, hbad, by rw [ha]; rfl⟩
+
+/-- **The nine grouping rules, exactly** (PACKAGE_SAME_<option> ×7 with key = package, value =
+    option; PACKAGE_SAME_DIRECTORY key = package, value = directory; DIRECTORY_SAME_PACKAGE key =
+    directory, value = package).  A target file is annotated iff some target file with the same key
+    has a different value — so ALL files of a conflicting group are annotated. -/
+theorem violations_exact_group (o : Options) (rules : List Rule) (w : Schema) (r : Rule)
+    (key val : File → Str) (loc : File → List Nat) (hg : groupSpec r = some (key, val, loc)) (a : Annotation) :
+    (a ∈ lint o rules w ∧ a.rule = r) ↔
+      r ∈ rules ∧ ∃ g ∈ nonImport w, a = ann r g (loc g) ∧ ∃ g' ∈ nonImport w, key g' = key g ∧ val g' ≠ val g := by
+  rw [mem_lint_iff]
+  constructor
+  · rintro ⟨⟨hr, ha⟩, rfl⟩
+    rw [runRule_group o w _ key val loc hg] at ha
+    exact ⟨hr, (mem_groupRule_iff _ _ _ _ _ a).mp ha⟩
+  · rintro ⟨hr, hx⟩
+    have ha : a ∈ runRule o w r := by
+      rw [runRule_group o w r key val loc hg]; exact (mem_groupRule_iff _ _ _ _ _ a).mpr hx
+    have hrule := runRule_rule o w r a ha
+    subst hrule
+    exact ⟨⟨hr, ha⟩, rfl⟩
+
+/-- "two files of one package with different option X ⇒ all of them annotated", as a corollary -/
+theorem group_conflict_all_annotated (o : Options) (rules : List Rule) (w : Schema) (r : Rule)
+    (key val : File → Str) (loc : File → List Nat) (hg : groupSpec r = some (key, val, loc)) (hr : r ∈ rules)
+    (g1 g2 : File) (h1 : g1 ∈ nonImport w) (h2 : g2 ∈ nonImport w) (hk : key g1 = key g2) (hv : val g1 ≠ val g2) :
+    ∀ g ∈ nonImport w, key g = key g1 → ann r g (loc g) ∈ lint o rules w := by
+  intro g hgm hkg
+  apply ((violations_exact_group o rules w r key val loc hg _).mpr ⟨hr, g, hgm, rfl, ?_⟩).1
+  by_cases e : val g1 = val g
+  · exact ⟨g2, h2, (hk.symm.trans hkg.symm), fun e2 => hv (e.trans e2.symm)⟩
+  · exact ⟨g1, h1, hkg.symm, e⟩
+
+/-- for a grouping rule, the pairwise Clean condition is EXACTLY "the rule reports nothing" -/
+theorem clean_iff_silent_group (o : Options) (w : Schema) (r : Rule)
+    (key val : File → Str) (loc : File → List Nat) (hg : groupSpec r = some (key, val, loc)) :
+    cleanRule o w r = true ↔ runRule o w r = [] := by
+  rw [cleanRule_groupSpec o w r key val loc hg, runRule_group o w r key val loc hg]
+  exact (groupRule_nil_iff r _ key val loc).symm
+
+/-- **RPC_REQUEST_RESPONSE_UNIQUE, exactly**: the annotated RPCs are the rows of the method table
+    that violate `RpcViolation` (same request and response type; a type used by two RPCs; with the
+    allow_* exemptions each on its own side). -/
+theorem violations_exact_rpc_unique (o : Options) (rules : List Rule) (w : Schema) (a : Annotation) :
+    (a ∈ lint o rules w ∧ a.rule = .RPC_REQUEST_RESPONSE_UNIQUE) ↔
+      .RPC_REQUEST_RESPONSE_UNIQUE ∈ rules ∧ ∃ x ∈ rpcTable w, a = x.ann ∧ RpcViolation o (rpcTable w) x := by
+  rw [mem_lint_iff]
+  constructor
+  · rintro ⟨⟨hr, ha⟩, e⟩
+    rw [e] at hr ha
+    exact ⟨hr, (mem_rpcUniqueT_iff o _ a).mp ha⟩
+  · rintro ⟨hr, x, hx, rfl, hv⟩
+    exact ⟨⟨hr, (mem_rpcUniqueT_iff o _ _).mpr ⟨x, hx, rfl, hv⟩⟩, rfl⟩
+
+/-- **STABLE_PACKAGE_NO_IMPORT_UNSTABLE, exactly**: import `i` of a target file with a stable
+    package is annotated iff it resolves (among the target files) to a file with an unstable package. -/
+theorem violations_exact_stable (o : Options) (rules : List Rule) (w : Schema) (a : Annotation) :
+    (a ∈ lint o rules w ∧ a.rule = .STABLE_PACKAGE_NO_IMPORT_UNSTABLE) ↔
+      .STABLE_PACKAGE_NO_IMPORT_UNSTABLE ∈ rules ∧ ∃ f ∈ nonImport w, isStable f.pkg = some true ∧
+        ∃ i imp, (i, imp) ∈ indexed f.imports ∧ ∃ g, findFile (nonImport w) imp.path = some g ∧
+          isStable g.pkg = some false ∧ a = ann .STABLE_PACKAGE_NO_IMPORT_UNSTABLE f [3, i] := by
+  rw [mem_lint_iff]
+  constructor
+  · rintro ⟨⟨hr, ha⟩, e⟩
+    rw [e] at hr ha
+    exact ⟨hr, (mem_stableNoUnstable_iff w a).mp ha⟩
+  · rintro ⟨hr, hx⟩
+    have ha := (mem_stableNoUnstable_iff w a).mpr hx
+    obtain ⟨f, _, _, i, imp, _, g, _, _, rfl⟩ := hx
+    exact ⟨⟨hr, ha⟩, rfl⟩
+
+/-! ## Frame theorems -/
+
+/-- **Frame (declarations).**  Rewriting the declarations of one file with a transformer that is
+    the identity on every group of declarations the rule `r` reads (`dep r`: enums with their
+    values / messages / fields and extensions / oneofs / services / RPCs) keeps `r` Clean — at any
+    nesting depth, whatever else the transformer does, for per-element and multi-file rules alike. -/
+theorem frame_declarations (o : Options) (w : Schema) (fp : Str) (T : Tr) (r : Rule)
+    (hid : ∀ g ∈ dep r, T.isId g) (hc : cleanRule o w r = true) :
+    cleanRule o (plantDecl fp T w) r = true :=
+  frame_deep o w fp T r hid hc
+
+/-- **Frame (file header).**  After rewriting the header of one target file of a Clean workspace
+    (declarations, import flag kept) no declaration rule fires: every annotation belongs to a
+    file / import rule or to a multi-file rule. -/
+theorem frame_header (o : Options) (rules : List Rule) (w : Schema) (f : File) (hf : FileAt w f)
+    (h : File → File) (hI : ∀ g, (h g).isImport = g.isImport) (kd : KeepsDecls h)
+    (hclean : cleanB o rules w = true) (a : Annotation) (ha : a ∈ lint o rules (plantFile f.path h w)) :
+    isFileRule a.rule = true ∨ elemRule a.rule = none :=
+  ((lint_header_op o rules w f hf h hI kd hclean a).mp ha).2.1
+
+/-! ## Exact planting: one theorem per planting operator
+
+  Shape: `cleanB o rules w` (the ORIGINAL workspace is Clean for the configured rules), `FileAt w f`
+  (f is a target file, the only one with its path), the element is enumerated in `f`, an
+  applicability condition on the ORIGINAL element, "the new name / comment / flag is bad" — derived
+  from the grammar theorems through `NotPascal` / `NotLowerSnake` / `NotUpperSnake` —, and explicit
+  side conditions for the (few) other rules that read the same attribute.  Conclusion: `lint` of
+  the planted workspace is EXACTLY the planted annotation (list equality; `rules.Nodup`), or, for
+  the operators that reach a multi-file rule, an `↔` characterisation of membership that names
+  every co-violation. -/
+
+/-! ## Exact planting: one theorem per planting operator -/
+
+/-- **Renaming an enum** (top-level or nested at any depth) to a name the PascalCase grammar rejects
+    (`NotPascal`: a delimiter such as '_', or a lower-case first letter): exactly ENUM_PASCAL_CASE at the
+    enum's name.  `hprefix`: ENUM_VALUE_PREFIX reads the enum name too — the value prefix must not
+    change (e.g. `Color` → `color`), otherwise every value is a co-violation. -/
+theorem plant_enum_name (o : Options) (rules : List Rule) (w : Schema) (f : File)
+    (hN : rules.Nodup) (hclean : cleanB o rules w = true) (hr : .ENUM_PASCAL_CASE ∈ rules)
+    (hf : FileAt w f) (p0 : List Nat) (e0 : Enum) (he0 : (p0, e0) ∈ fileEnums f) (nn : Str)
+    (hbadname : NotPascal nn)
+    (hprefix : .ENUM_VALUE_PREFIX ∈ rules → toUpperSnakeCase false nn = toUpperSnakeCase false e0.name) :
+    lint o rules (renameEnum f.path p0 nn w) = [⟨.ENUM_PASCAL_CASE, f.path, p0 ++ [1]⟩] := by
+  have h := plant_via_map o rules w .ENUM_PASCAL_CASE _ _ _ _ rfl hN hr hclean f hf
+    (mapFile (opEnum p0 (fun e => {e with name := nn}))) (fun _ => rfl) _ (fileEnums_map _ f)
+    (·.1) (fileEnums_nodup f) (p0, e0) he0
+    (by intro x _ hne hg; simpa only [tauEnum, opEnum_enumFull, if_neg hne] using hg)
+    (by simp only [tauEnum, opEnum_enumFull, if_pos]; exact notPascal_bad hbadname)
+    (by
+      intro r hr hne
+      apply frame_opEnum o w f hf p0 e0 he0 _ r _ (cleanB_rule hclean hr)
+      cases r <;> simp [enumLocalGood] at hne ⊢
+      case ENUM_VALUE_PREFIX => rw [hprefix hr]; exact id)
+  simpa [renameEnum, setEnumComment, addAllowAlias, plantDecl, tauEnum, opEnum_enumFull, ann, mapFile] using h
+
+/-- **Deleting / spoiling the leading comment of an enum** (`c` has no accepted line: empty, blank,
+    or only `buf:lint:ignore …` lines): exactly COMMENT_ENUM at the enum. -/
+theorem plant_enum_comment (o : Options) (rules : List Rule) (w : Schema) (f : File)
+    (hN : rules.Nodup) (hclean : cleanB o rules w = true) (hr : .COMMENT_ENUM ∈ rules)
+    (hf : FileAt w f) (p0 : List Nat) (e0 : Enum) (he0 : (p0, e0) ∈ fileEnums f) (c : Str)
+    (hbadc : validLeadingComment o.commentExcludes c = false) :
+    lint o rules (setEnumComment f.path p0 c w) = [⟨.COMMENT_ENUM, f.path, p0⟩] := by
+  have h := plant_via_map o rules w .COMMENT_ENUM _ _ _ _ rfl hN hr hclean f hf
+    (mapFile (opEnum p0 (fun e => {e with comment := c}))) (fun _ => rfl) _ (fileEnums_map _ f)
+    (·.1) (fileEnums_nodup f) (p0, e0) he0
+    (by intro x _ hne hg; simpa only [tauEnum, opEnum_enumFull, if_neg hne] using hg)
+    (by simp only [tauEnum, opEnum_enumFull, if_pos, hbadc]; rfl)
+    (by
+      intro r hr hne
+      apply frame_opEnum o w f hf p0 e0 he0 _ r _ (cleanB_rule hclean hr)
+      cases r <;> simp [enumLocalGood] at hne ⊢)
+  simpa [renameEnum, setEnumComment, addAllowAlias, plantDecl, tauEnum, opEnum_enumFull, ann, mapFile] using h
+
+/-- **Adding `option allow_alias = true;`** (with the alias values it needs, themselves conforming):
+    exactly ENUM_NO_ALLOW_ALIAS at the option. -/
+theorem plant_enum_allow_alias (o : Options) (rules : List Rule) (w : Schema) (f : File)
+    (hN : rules.Nodup) (hclean : cleanB o rules w = true) (hr : .ENUM_NO_ALLOW_ALIAS ∈ rules)
+    (hf : FileAt w f) (p0 : List Nat) (e0 : Enum) (he0 : (p0, e0) ∈ fileEnums f) (extra : List EnumValue)
+    (hne : e0.values ≠ [])
+    (hextra : ∀ v ∈ extra,
+      (.COMMENT_ENUM_VALUE ∈ rules → goodComment o v.comment = true) ∧
+      (.ENUM_VALUE_PREFIX ∈ rules → hasPrefix (toUpperSnakeCase false e0.name ++ ['_']) v.name = true) ∧
+      (.ENUM_VALUE_UPPER_SNAKE_CASE ∈ rules → isUpperSnakeIdent v.name = true) ∧
+      (.ENUM_ZERO_VALUE_SUFFIX ∈ rules → (v.number != 0 || hasSuffix o.zeroSuffix v.name) = true)) :
+    lint o rules (addAllowAlias f.path p0 extra w) = [⟨.ENUM_NO_ALLOW_ALIAS, f.path, p0 ++ [3, 2]⟩] := by
+  have h := plant_via_map o rules w .ENUM_NO_ALLOW_ALIAS _ _ _ _ rfl hN hr hclean f hf
+    (mapFile (opEnum p0 (fun e => {e with allowAlias := true, values := e.values ++ extra}))) (fun _ => rfl) _
+    (fileEnums_map _ f) (·.1) (fileEnums_nodup f) (p0, e0) he0
+    (by intro x _ hne hg; simpa only [tauEnum, opEnum_enumFull, if_neg hne] using hg)
+    (by simp only [tauEnum, opEnum_enumFull, if_pos])
+    (by
+      intro r hr hner
+      apply frame_opEnum o w f hf p0 e0 he0 _ r _ (cleanB_rule hclean hr)
+      cases r <;> simp [enumLocalGood] at hner ⊢
+      case ENUM_FIRST_VALUE_ZERO =>
+        cases hv : e0.values with
+        | nil => exact absurd hv hne
+        | cons a t => simp
+      case COMMENT_ENUM_VALUE => exact fun h => ⟨h, fun v hv => (hextra v hv).1 hr⟩
+      case ENUM_VALUE_PREFIX => exact fun h => ⟨h, fun v hv => (hextra v hv).2.1 hr⟩
+      case ENUM_VALUE_UPPER_SNAKE_CASE => exact fun h => ⟨h, fun v hv => (hextra v hv).2.2.1 hr⟩
+      case ENUM_ZERO_VALUE_SUFFIX =>
+        exact fun h => ⟨h, fun v hv => by simpa using (hextra v hv).2.2.2 hr⟩)
+  simpa [renameEnum, setEnumComment, addAllowAlias, plantDecl, tauEnum, opEnum_enumFull, ann, mapFile] using h
+
+/-- **Making the first enum value non-zero** (exchange the first two values): exactly
+    ENUM_FIRST_VALUE_ZERO at the first value's number. -/
+theorem plant_enum_first_value_nonzero (o : Options) (rules : List Rule) (w : Schema) (f : File)
+    (hN : rules.Nodup) (hclean : cleanB o rules w = true) (hr : .ENUM_FIRST_VALUE_ZERO ∈ rules)
+    (hf : FileAt w f) (p0 : List Nat) (e0 : Enum) (he0 : (p0, e0) ∈ fileEnums f)
+    (a b : EnumValue) (rest : List EnumValue) (hv : e0.values = a :: b :: rest) (hb : b.number ≠ 0) :
+    lint o rules (swapFirstValues f.path p0 w) = [⟨.ENUM_FIRST_VALUE_ZERO, f.path, p0 ++ [2, 0, 2]⟩] := by
+  have h := plant_via_map o rules w .ENUM_FIRST_VALUE_ZERO _ _ _ _ rfl hN hr hclean f hf
+    (mapFile (opEnum p0 swapFirst)) (fun _ => rfl) _
+    (fileEnums_map _ f) (·.1) (fileEnums_nodup f) (p0, e0) he0
+    (by intro x _ hne hg; simpa only [tauEnum, opEnum_enumFull, if_neg hne] using hg)
+    (by simp only [tauEnum, opEnum_enumFull, if_pos, swapFirst, hv]; simpa using hb)
+    (by
+      intro r hr hner
+      apply frame_opEnum o w f hf p0 e0 he0 _ r _ (cleanB_rule hclean hr)
+      cases r <;> simp [enumLocalGood, swapFirst, hv] at hner ⊢
+      all_goals (intros; simp_all))
+  simpa [swapFirstValues, plantDecl, tauEnum, opEnum_enumFull, ann, mapFile] using h
+
+/-! ### enum values -/
+
+/-- **Renaming an enum value** to a name the UPPER_SNAKE_CASE grammar rejects (contains a lower-case
+    letter), keeping prefix and zero-suffix: exactly ENUM_VALUE_UPPER_SNAKE_CASE at the value's name. -/
+theorem plant_enum_value_case (o : Options) (rules : List Rule) (w : Schema) (f : File)
+    (hN : rules.Nodup) (hclean : cleanB o rules w = true) (hr : .ENUM_VALUE_UPPER_SNAKE_CASE ∈ rules)
+    (hf : FileAt w f) (q0 : List Nat) (e0 : Enum) (v0 : EnumValue) (h0 : (q0, e0, v0) ∈ fileEnumValues f)
+    (nn : Str) (hbadname : NotUpperSnake nn)
+    (hprefix : .ENUM_VALUE_PREFIX ∈ rules → hasPrefix (toUpperSnakeCase false e0.name ++ ['_']) nn = true)
+    (hsuffix : .ENUM_ZERO_VALUE_SUFFIX ∈ rules → v0.number = 0 → hasSuffix o.zeroSuffix nn = true) :
+    lint o rules (renameValue f.path q0 nn w) = [⟨.ENUM_VALUE_UPPER_SNAKE_CASE, f.path, q0 ++ [1]⟩] := by
+  have h := plant_via_map o rules w .ENUM_VALUE_UPPER_SNAKE_CASE _ _ _ _ rfl hN hr hclean f hf
+    (mapFile (opValue q0 (fun v => {v with name := nn}))) (fun _ => rfl) _
+    (fileEnumValues_map_value _ rfl f) (·.1) (fileEnumValues_nodup f) (q0, e0, v0) h0
+    (by intro x _ hne hg; simpa only [tauValue, opValue, if_neg hne] using hg)
+    (by simp only [tauValue, opValue, if_pos]; exact notUpperSnake_bad hbadname)
+    (by
+      intro r hr hner
+      apply frame_opValue o w f hf q0 e0 v0 h0 (fun v => {v with name := nn}) (fun _ => rfl) r _ (cleanB_rule hclean hr)
+      cases r <;> simp [valueLocalGood] at hner ⊢
+      case ENUM_VALUE_PREFIX => exact fun _ => hprefix hr
+      case ENUM_ZERO_VALUE_SUFFIX =>
+        intro h
+        by_cases hz : v0.number = 0
+        · exact Or.inr (hsuffix hr hz)
+        · exact Or.inl hz)
+  simpa [renameValue, plantDecl, tauValue, opValue, ann, mapFile] using h
+
+/-- **Renaming an enum value** to a name without the `<ENUM_NAME>_` prefix: exactly ENUM_VALUE_PREFIX. -/
+theorem plant_enum_value_prefix (o : Options) (rules : List Rule) (w : Schema) (f : File)
+    (hN : rules.Nodup) (hclean : cleanB o rules w = true) (hr : .ENUM_VALUE_PREFIX ∈ rules)
+    (hf : FileAt w f) (q0 : List Nat) (e0 : Enum) (v0 : EnumValue) (h0 : (q0, e0, v0) ∈ fileEnumValues f)
+    (nn : Str) (hbadname : hasPrefix (toUpperSnakeCase false e0.name ++ ['_']) nn = false)
+    (hcase : .ENUM_VALUE_UPPER_SNAKE_CASE ∈ rules → isUpperSnakeIdent nn = true)
+    (hsuffix : .ENUM_ZERO_VALUE_SUFFIX ∈ rules → v0.number = 0 → hasSuffix o.zeroSuffix nn = true) :
+    lint o rules (renameValue f.path q0 nn w) = [⟨.ENUM_VALUE_PREFIX, f.path, q0 ++ [1]⟩] := by
+  have h := plant_via_map o rules w .ENUM_VALUE_PREFIX _ _ _ _ rfl hN hr hclean f hf
+    (mapFile (opValue q0 (fun v => {v with name := nn}))) (fun _ => rfl) _
+    (fileEnumValues_map_value _ rfl f) (·.1) (fileEnumValues_nodup f) (q0, e0, v0) h0
+    (by
+      intro x _ hne hg
+      show hasPrefix (toUpperSnakeCase false ((opValue q0 _).enumFull _ x.2.1).name ++ ['_'])
+        ((opValue q0 _).value x.1 x.2.2).name = true
+      rw [opValue_enumFull_name]
+      simp only [opValue, if_neg hne]
+      exact hg)
+    (by
+      simp only [tauValue, opValue, if_pos]
+      show (!hasPrefix (toUpperSnakeCase false e0.name ++ ['_']) nn) = true
+      rw [hbadname]; rfl)
+    (by
+      intro r hr hner
+      apply frame_opValue o w f hf q0 e0 v0 h0 (fun v => {v with name := nn}) (fun _ => rfl) r _ (cleanB_rule hclean hr)
+      cases r <;> simp [valueLocalGood] at hner ⊢
+      case ENUM_VALUE_UPPER_SNAKE_CASE => exact fun _ => hcase hr
+      case ENUM_ZERO_VALUE_SUFFIX =>
+        intro h
+        by_cases hz : v0.number = 0
+        · exact Or.inr (hsuffix hr hz)
+        · exact Or.inl hz)
+  simpa [renameValue, plantDecl, tauValue, opValue, ann, mapFile] using h
+
+/-- **Renaming the zero value** to a name without the configured suffix (option
+    `enum_zero_value_suffix`, default `_UNSPECIFIED`): exactly ENUM_ZERO_VALUE_SUFFIX. -/
+theorem plant_enum_zero_value_suffix (o : Options) (rules : List Rule) (w : Schema) (f : File)
+    (hN : rules.Nodup) (hclean : cleanB o rules w = true) (hr : .ENUM_ZERO_VALUE_SUFFIX ∈ rules)
+    (hf : FileAt w f) (q0 : List Nat) (e0 : Enum) (v0 : EnumValue) (h0 : (q0, e0, v0) ∈ fileEnumValues f)
+    (hzero : v0.number = 0)
+    (nn : Str) (hbadname : hasSuffix o.zeroSuffix nn = false)
+    (hcase : .ENUM_VALUE_UPPER_SNAKE_CASE ∈ rules → isUpperSnakeIdent nn = true)
+    (hprefix : .ENUM_VALUE_PREFIX ∈ rules → hasPrefix (toUpperSnakeCase false e0.name ++ ['_']) nn = true) :
+    lint o rules (renameValue f.path q0 nn w) = [⟨.ENUM_ZERO_VALUE_SUFFIX, f.path, q0 ++ [1]⟩] := by
+  have h := plant_via_map o rules w .ENUM_ZERO_VALUE_SUFFIX _ _ _ _ rfl hN hr hclean f hf
+    (mapFile (opValue q0 (fun v => {v with name := nn}))) (fun _ => rfl) _
+    (fileEnumValues_map_value _ rfl f) (·.1) (fileEnumValues_nodup f) (q0, e0, v0) h0
+    (by intro x _ hne hg; simpa only [tauValue, opValue, if_neg hne] using hg)
+    (by
+      simp only [tauValue, opValue, if_pos]
+      show (v0.number == 0 && !hasSuffix o.zeroSuffix nn) = true
+      rw [hbadname, hzero]; rfl)
+    (by
+      intro r hr hner
+      apply frame_opValue o w f hf q0 e0 v0 h0 (fun v => {v with name := nn}) (fun _ => rfl) r _ (cleanB_rule hclean hr)
+      cases r <;> simp [valueLocalGood] at hner ⊢
+      case ENUM_VALUE_UPPER_SNAKE_CASE => exact fun _ => hcase hr
+      case ENUM_VALUE_PREFIX => exact fun _ => hprefix hr)
+  simpa [renameValue, plantDecl, tauValue, opValue, ann, mapFile] using h
+
+/-- **Deleting the comment of an enum value**: exactly COMMENT_ENUM_VALUE at the value. -/
+theorem plant_enum_value_comment (o : Options) (rules : List Rule) (w : Schema) (f : File)
+    (hN : rules.Nodup) (hclean : cleanB o rules w = true) (hr : .COMMENT_ENUM_VALUE ∈ rules)
+    (hf : FileAt w f) (q0 : List Nat) (e0 : Enum) (v0 : EnumValue) (h0 : (q0, e0, v0) ∈ fileEnumValues f)
+    (c : Str) (hbadc : validLeadingComment o.commentExcludes c = false) :
+    lint o rules (setValueComment f.path q0 c w) = [⟨.COMMENT_ENUM_VALUE, f.path, q0⟩] := by
+  have h := plant_via_map o rules w .COMMENT_ENUM_VALUE _ _ _ _ rfl hN hr hclean f hf
+    (mapFile (opValue q0 (fun v => {v with comment := c}))) (fun _ => rfl) _
+    (fileEnumValues_map_value _ rfl f) (·.1) (fileEnumValues_nodup f) (q0, e0, v0) h0
+    (by intro x _ hne hg; simpa only [tauValue, opValue, if_neg hne] using hg)
+    (by simp only [tauValue, opValue, if_pos, hbadc]; rfl)
+    (by
+      intro r hr hner
+      apply frame_opValue o w f hf q0 e0 v0 h0 (fun v => {v with comment := c}) (fun _ => rfl) r _ (cleanB_rule hclean hr)
+      cases r <;> simp [valueLocalGood] at hner ⊢)
+  simpa [setValueComment, plantDecl, tauValue, opValue, ann, mapFile] using h
+
+/-! ### messages -/
+
+/-- **Renaming a message** (top-level, nested at any depth, group body; not a synthetic map entry) to
+    a non-PascalCase name: exactly MESSAGE_PASCAL_CASE at its name.  (RPC request/response types are
+    strings in the schema: renaming a message that an RPC references is `setRequestType` /
+    `setResponseType` on top, see `plant_rpc_request_type`.) -/
+theorem plant_message_name (o : Options) (rules : List Rule) (w : Schema) (f : File)
+    (hN : rules.Nodup) (hclean : cleanB o rules w = true) (hr : .MESSAGE_PASCAL_CASE ∈ rules)
+    (hf : FileAt w f) (p0 : List Nat) (m0 : Message) (h0 : (p0, m0) ∈ fileMsgs f)
+    (hme : m0.mapEntry = false) (nn : Str) (hbadname : NotPascal nn) :
+    lint o rules (renameMessage f.path p0 nn w) = [⟨.MESSAGE_PASCAL_CASE, f.path, p0 ++ [1]⟩] := by
+  have h := plant_via_map o rules w .MESSAGE_PASCAL_CASE _ _ _ _ rfl hN hr hclean f hf
+    (mapFile (opMsg p0 (fun _ => nn) id)) (fun _ => rfl) _ (fileMsgs_map _ f)
+    (·.1) (fileMsgs_nodup f) (p0, m0) h0
+    (by
+      intro x _ hne hg
+      simpa only [tauMsg, mapMsg_name, mapMsg_mapEntry, opMsg, if_neg hne] using hg)
+    (by
+      simp only [tauMsg, mapMsg_name, mapMsg_mapEntry, opMsg, if_pos, hme]
+      exact notPascal_bad hbadname)
+    (by
+      intro r hr hner
+      apply frame_opMsg o w f hf p0 m0 h0 (fun _ => nn) id r _ (cleanB_rule hclean hr)
+      cases r <;> simp [msgLocalGood] at hner ⊢)
+  simpa [renameMessage, plantDecl, tauMsg, ann, mapFile] using h
+
+/-- **Deleting the comment of a message**: exactly COMMENT_MESSAGE at the message. -/
+theorem plant_message_comment (o : Options) (rules : List Rule) (w : Schema) (f : File)
+    (hN : rules.Nodup) (hclean : cleanB o rules w = true) (hr : .COMMENT_MESSAGE ∈ rules)
+    (hf : FileAt w f) (p0 : List Nat) (m0 : Message) (h0 : (p0, m0) ∈ fileMsgs f)
+    (hme : m0.mapEntry = false) (c : Str) (hbadc : validLeadingComment o.commentExcludes c = false) :
+    lint o rules (setMessageComment f.path p0 c w) = [⟨.COMMENT_MESSAGE, f.path, p0⟩] := by
+  have h := plant_via_map o rules w .COMMENT_MESSAGE _ _ _ _ rfl hN hr hclean f hf
+    (mapFile (opMsg p0 id (fun _ => c))) (fun _ => rfl) _ (fileMsgs_map _ f)
+    (·.1) (fileMsgs_nodup f) (p0, m0) h0
+    (by
+      intro x _ hne hg
+      simpa only [tauMsg, mapMsg_comment, mapMsg_mapEntry, opMsg, if_neg hne] using hg)
+    (by simp only [tauMsg, mapMsg_comment, mapMsg_mapEntry, opMsg, if_pos, hme, hbadc]; rfl)
+    (by
+      intro r hr hner
+      apply frame_opMsg o w f hf p0 m0 h0 id (fun _ => c) r _ (cleanB_rule hclean hr)
+      cases r <;> simp [msgLocalGood] at hner ⊢)
+  simpa [setMessageComment, plantDecl, tauMsg, ann, mapFile] using h
+
+/-! ### fields and extensions (any kind: plain, oneof member, map, group, nested or file-level extension) -/
+
+/-- **Renaming a field or extension of ANY kind** (plain, oneof member, proto3 optional, map, group,
+    extension nested in a message, FILE-LEVEL extension with no parent message — anything the field
+    iterator visits whose parent is not a synthetic map entry) to a name with an upper-case letter:
+    exactly FIELD_LOWER_SNAKE_CASE at its name. -/
+theorem plant_field_name (o : Options) (rules : List Rule) (w : Schema) (f : File)
+    (hN : rules.Nodup) (hclean : cleanB o rules w = true) (hr : .FIELD_LOWER_SNAKE_CASE ∈ rules)
+    (hf : FileAt w f) (q0 : List Nat) (pm0 : Option Message) (fd0 : Field) (h0 : (q0, pm0, fd0) ∈ fileFields f)
+    (hpm : isMapEntryParent pm0 = false) (nn : Str) (hbadname : NotLowerSnake nn)
+    (hdesc : .FIELD_NO_DESCRIPTOR ∈ rules → (trimUnderscores nn).map toLower ≠ "descriptor".toList) :
+    lint o rules (renameField f.path q0 nn w) = [⟨.FIELD_LOWER_SNAKE_CASE, f.path, q0 ++ [1]⟩] := by
+  have h := plant_via_map o rules w .FIELD_LOWER_SNAKE_CASE _ _ _ _ rfl hN hr hclean f hf
+    (mapFile (opField q0 (fun _ => nn) id id)) (fun _ => rfl) _ (fileFields_map _ f)
+    (·.1) (fileFields_nodup f) (q0, pm0, fd0) h0
+    (by
+      intro x _ hne hg
+      show (isMapEntryParent (tauField _ x).2.1 || isLowerSnakeIdent (tauField _ x).2.2.name) = true
+      rw [tauField_opField, if_neg hne]
+      simpa only [tauField, isMapEntryParent_map] using hg)
+    (by
+      show (if isMapEntryParent (tauField _ (q0, pm0, fd0)).2.1 = true then false
+        else (tauField _ (q0, pm0, fd0)).2.2.name != toLowerSnakeCase false (tauField _ (q0, pm0, fd0)).2.2.name) = true
+      rw [tauField_opField]
+      simp only [tauField, isMapEntryParent_map, hpm, if_pos, fieldWith]
+      exact notLowerSnake_bad hbadname)
+    (by
+      intro r hr hner
+      apply frame_opField o w f hf q0 pm0 fd0 h0 (fun _ => nn) id id r _ (cleanB_rule hclean hr)
+      cases r <;> simp [fieldLocalGood, fieldWith] at hner ⊢
+      case FIELD_NO_DESCRIPTOR => exact fun _ => hdesc hr)
+  simpa [renameField, plantDecl, tauField, ann, mapFile] using h
+
+/-- **Naming a field `descriptor`** (up to case and surrounding underscores): exactly
+    FIELD_NO_DESCRIPTOR (FIELD_LOWER_SNAKE_CASE is a co-violation unless the new name is lower_snake_case). -/
+theorem plant_field_descriptor (o : Options) (rules : List Rule) (w : Schema) (f : File)
+    (hN : rules.Nodup) (hclean : cleanB o rules w = true) (hr : .FIELD_NO_DESCRIPTOR ∈ rules)
+    (hf : FileAt w f) (q0 : List Nat) (pm0 : Option Message) (fd0 : Field) (h0 : (q0, pm0, fd0) ∈ fileFields f)
+    (nn : Str) (hbadname : (trimUnderscores nn).map toLower = "descriptor".toList)
+    (hsnake : .FIELD_LOWER_SNAKE_CASE ∈ rules → isMapEntryParent pm0 = false → isLowerSnakeIdent nn = true) :
+    lint o rules (renameField f.path q0 nn w) = [⟨.FIELD_NO_DESCRIPTOR, f.path, q0 ++ [1]⟩] := by
+  have h := plant_via_map o rules w .FIELD_NO_DESCRIPTOR _ _ _ _ rfl hN hr hclean f hf
+    (mapFile (opField q0 (fun _ => nn) id id)) (fun _ => rfl) _ (fileFields_map _ f)
+    (·.1) (fileFields_nodup f) (q0, pm0, fd0) h0
+    (by
+      intro x _ hne hg
+      show ((trimUnderscores (tauField _ x).2.2.name).map toLower != "descriptor".toList) = true
+      rw [tauField_opField, if_neg hne]
+      exact hg)
+    (by
+      show ((trimUnderscores (tauField _ (q0, pm0, fd0)).2.2.name).map toLower == "descriptor".toList) = true
+      rw [tauField_opField]
+      simp only [if_pos, fieldWith, hbadname, beq_self_eq_true])
+    (by
+      intro r hr hner
+      apply frame_opField o w f hf q0 pm0 fd0 h0 (fun _ => nn) id id r _ (cleanB_rule hclean hr)
+      cases r <;> simp [fieldLocalGood, fieldWith] at hner ⊢
+      case FIELD_LOWER_SNAKE_CASE =>
+        intro _
+        cases hp : isMapEntryParent pm0
+        · exact Or.inr (hsnake hr hp)
+        · exact Or.inl rfl)
+  simpa [renameField, plantDecl, tauField, ann, mapFile] using h
+
+/-- **Deleting the comment of a field** (not a group, whose comment belongs to its message; parent
+    not a map entry): exactly COMMENT_FIELD at the field. -/
+theorem plant_field_comment (o : Options) (rules : List Rule) (w : Schema) (f : File)
+    (hN : rules.Nodup) (hclean : cleanB o rules w = true) (hr : .COMMENT_FIELD ∈ rules)
+    (hf : FileAt w f) (q0 : List Nat) (pm0 : Option Message) (fd0 : Field) (h0 : (q0, pm0, fd0) ∈ fileFields f)
+    (hpm : isMapEntryParent pm0 = false) (hgrp : fd0.group = false)
+    (c : Str) (hbadc : validLeadingComment o.commentExcludes c = false) :
+    lint o rules (setFieldComment f.path q0 c w) = [⟨.COMMENT_FIELD, f.path, q0⟩] := by
+  have h := plant_via_map o rules w .COMMENT_FIELD _ _ _ _ rfl hN hr hclean f hf
+    (mapFile (opField q0 id (fun _ => c) id)) (fun _ => rfl) _ (fileFields_map _ f)
+    (·.1) (fileFields_nodup f) (q0, pm0, fd0) h0
+    (by
+      intro x _ hne hg
+      show (isMapEntryParent (tauField _ x).2.1 || (tauField _ x).2.2.group
+        || goodComment o (tauField _ x).2.2.comment) = true
+      rw [tauField_opField, if_neg hne]
+      simpa only [tauField, isMapEntryParent_map] using hg)
+    (by
+      show (if (isMapEntryParent (tauField _ (q0, pm0, fd0)).2.1 || (tauField _ (q0, pm0, fd0)).2.2.group) = true
+        then false else !validLeadingComment o.commentExcludes (tauField _ (q0, pm0, fd0)).2.2.comment) = true
+      rw [tauField_opField]
+      simp [tauField, isMapEntryParent_map, hpm, fieldWith, hgrp, hbadc])
+    (by
+      intro r hr hner
+      apply frame_opField o w f hf q0 pm0 fd0 h0 id (fun _ => c) id r _ (cleanB_rule hclean hr)
+      cases r <;> simp [fieldLocalGood, fieldWith] at hner ⊢)
+  simpa [setFieldComment, plantDecl, tauField, ann, mapFile] using h
+
+/-- **Setting the `required` label**: exactly FIELD_NOT_REQUIRED at the field's name. -/
+theorem plant_field_required (o : Options) (rules : List Rule) (w : Schema) (f : File)
+    (hN : rules.Nodup) (hclean : cleanB o rules w = true) (hr : .FIELD_NOT_REQUIRED ∈ rules)
+    (hf : FileAt w f) (q0 : List Nat) (pm0 : Option Message) (fd0 : Field) (h0 : (q0, pm0, fd0) ∈ fileFields f) :
+    lint o rules (setFieldRequired f.path q0 w) = [⟨.FIELD_NOT_REQUIRED, f.path, q0 ++ [1]⟩] := by
+  have h := plant_via_map o rules w .FIELD_NOT_REQUIRED _ _ _ _ rfl hN hr hclean f hf
+    (mapFile (opField q0 id id (fun _ => true))) (fun _ => rfl) _ (fileFields_map _ f)
+    (·.1) (fileFields_nodup f) (q0, pm0, fd0) h0
+    (by
+      intro x _ hne hg
+      show (!(tauField _ x).2.2.required) = true
+      rw [tauField_opField, if_neg hne]
+      exact hg)
+    (by
+      show (tauField _ (q0, pm0, fd0)).2.2.required = true
+      rw [tauField_opField]
+      simp only [if_pos, fieldWith])
+    (by
+      intro r hr hner
+      apply frame_opField o w f hf q0 pm0 fd0 h0 id id (fun _ => true) r _ (cleanB_rule hclean hr)
+      cases r <;> simp [fieldLocalGood, fieldWith] at hner ⊢)
+  simpa [setFieldRequired, plantDecl, tauField, ann, mapFile] using h
+
+/-! ### oneofs -/
+
+/-- **Renaming a oneof** (declared, not the synthetic oneof of a proto3 optional) to a name with an
+    upper-case letter: exactly ONEOF_LOWER_SNAKE_CASE. -/
+theorem plant_oneof_name (o : Options) (rules : List Rule) (w : Schema) (f : File)
+    (hN : rules.Nodup) (hclean : cleanB o rules w = true) (hr : .ONEOF_LOWER_SNAKE_CASE ∈ rules)
+    (hf : FileAt w f) (q0 : List Nat) (m0 : Message) (i0 : Nat) (oo0 : Oneof)
+    (h0 : (q0, m0, i0, oo0) ∈ fileOneofs f) (hp3 : oneofIsP3Optional m0 i0 = false)
+    (nn : Str) (hbadname : NotLowerSnake nn) :
+    lint o rules (renameOneof f.path q0 nn w) = [⟨.ONEOF_LOWER_SNAKE_CASE, f.path, q0 ++ [1]⟩] := by
+  have h := plant_via_map o rules w .ONEOF_LOWER_SNAKE_CASE _ _ _ _ rfl hN hr hclean f hf
+    (mapFile (opOneof q0 (fun x => {x with name := nn}))) (fun _ => rfl) _ (fileOneofs_map _ f)
+    (·.1) (fileOneofs_nodup f) (q0, m0, i0, oo0) h0
+    (by
+      intro x _ hne hg
+      simpa only [tauOneof, oneofIsP3Optional_map, opOneof, if_neg hne] using hg)
+    (by
+      simp only [tauOneof, oneofIsP3Optional_map, opOneof, if_pos, hp3]
+      simpa using notLowerSnake_bad hbadname)
+    (by
+      intro r hr hner
+      apply frame_opOneof o w f hf q0 m0 i0 oo0 h0 (fun x => {x with name := nn}) r _ (cleanB_rule hclean hr)
+      cases r <;> simp [oneofLocalGood] at hner ⊢)
+  simpa [renameOneof, plantDecl, tauOneof, opOneof, ann, mapFile] using h
+
+/-- **Deleting the comment of a oneof**: exactly COMMENT_ONEOF. -/
+theorem plant_oneof_comment (o : Options) (rules : List Rule) (w : Schema) (f : File)
+    (hN : rules.Nodup) (hclean : cleanB o rules w = true) (hr : .COMMENT_ONEOF ∈ rules)
+    (hf : FileAt w f) (q0 : List Nat) (m0 : Message) (i0 : Nat) (oo0 : Oneof)
+    (h0 : (q0, m0, i0, oo0) ∈ fileOneofs f) (hsyn : oo0.synthetic = false)
+    (c : Str) (hbadc : validLeadingComment o.commentExcludes c = false) :
+    lint o rules (setOneofComment f.path q0 c w) = [⟨.COMMENT_ONEOF, f.path, q0⟩] := by
+  have h := plant_via_map o rules w .COMMENT_ONEOF _ _ _ _ rfl hN hr hclean f hf
+    (mapFile (opOneof q0 (fun x => {x with comment := c}))) (fun _ => rfl) _ (fileOneofs_map _ f)
+    (·.1) (fileOneofs_nodup f) (q0, m0, i0, oo0) h0
+    (by
+      intro x _ hne hg
+      simpa only [tauOneof, opOneof, if_neg hne] using hg)
+    (by simp only [tauOneof, opOneof, if_pos, hsyn, hbadc]; rfl)
+    (by
+      intro r hr hner
+      apply frame_opOneof o w f hf q0 m0 i0 oo0 h0 (fun x => {x with comment := c}) r _ (cleanB_rule hclean hr)
+      cases r <;> simp [oneofLocalGood] at hner ⊢)
+  simpa [setOneofComment, plantDecl, tauOneof, opOneof, ann, mapFile] using h
+
+/-! ### services -/
+
+/-- **Renaming a service** to a non-PascalCase name that keeps the suffix and the PascalCase form
+    (e.g. `FooService` → `fooService`): exactly SERVICE_PASCAL_CASE at its name. -/
+theorem plant_service_name_case (o : Options) (rules : List Rule) (w : Schema) (f : File)
+    (hN : rules.Nodup) (hclean : cleanB o rules w = true) (hr : .SERVICE_PASCAL_CASE ∈ rules)
+    (hf : FileAt w f) (p0 : List Nat) (s0 : Service) (h0 : (p0, s0) ∈ fileSvcs f)
+    (nn : Str) (hbadname : NotPascal nn)
+    (hsuffix : .SERVICE_SUFFIX ∈ rules → hasSuffix o.svcSuffix nn = true)
+    (hstd : (.RPC_REQUEST_STANDARD_NAME ∈ rules ∨ .RPC_RESPONSE_STANDARD_NAME ∈ rules) →
+      toPascalCase nn = toPascalCase s0.name) :
+    lint o rules (renameService f.path p0 nn w) = [⟨.SERVICE_PASCAL_CASE, f.path, p0 ++ [1]⟩] := by
+  have h := plant_via_map o rules w .SERVICE_PASCAL_CASE _ _ _ _ rfl hN hr hclean f hf
+    (mapFile (opSvc p0 (fun _ => nn) id)) (fun _ => rfl) _ (fileSvcs_map _ f)
+    (·.1) (fileSvcs_nodup f) (p0, s0) h0
+    (by
+      intro x _ hne hg
+      simpa only [tauSvc, mapSvc_opSvc, if_neg hne] using hg)
+    (by
+      simp only [tauSvc, mapSvc_opSvc, if_pos, svcWith]
+      exact notPascal_bad hbadname)
+    (by
+      intro r hr hner
+      apply frame_opSvc o w f hf p0 s0 h0 (fun _ => nn) id r _ _ (cleanB_rule hclean hr)
+      · cases r <;> simp [svcLocalGood, svcWith] at hner ⊢
+        case SERVICE_SUFFIX => exact fun _ => hsuffix hr
+      · intro m _
+        cases r <;> simp only [rpcLocalGood, imp_self]
+        case RPC_REQUEST_STANDARD_NAME =>
+          rw [stdNameBad_congr_pascal o true s0 (svcWith s0 (fun _ => nn) id) m (hstd (Or.inl hr))]; exact id
+        case RPC_RESPONSE_STANDARD_NAME =>
+          rw [stdNameBad_congr_pascal o false s0 (svcWith s0 (fun _ => nn) id) m (hstd (Or.inr hr))]; exact id)
+  simpa [renameService, plantDecl, tauSvc, mapSvc_opSvc, svcWith, ann, mapFile] using h
+
+/-- A service name without the configured suffix.  The RPC_*_STANDARD_NAME rules read the service
+    name too (`<Service><Rpc>Request`): `hstd` asks that every RPC of the service still has a
+    standard request / response name under the NEW service name — e.g. because it uses the short
+    form `<Rpc>Request` (otherwise those annotations are co-violations). -/
+theorem plant_service_suffix (o : Options) (rules : List Rule) (w : Schema) (f : File)
+    (hN : rules.Nodup) (hclean : cleanB o rules w = true) (hr : .SERVICE_SUFFIX ∈ rules)
+    (hf : FileAt w f) (p0 : List Nat) (s0 : Service) (h0 : (p0, s0) ∈ fileSvcs f)
+    (nn : Str) (hbadname : hasSuffix o.svcSuffix nn = false)
+    (hcase : .SERVICE_PASCAL_CASE ∈ rules → isPascalIdent nn = true)
+    (hstd : ∀ m ∈ s0.rpcs,
+      (.RPC_REQUEST_STANDARD_NAME ∈ rules → stdNameBad o true { s0 with name := nn } m = false) ∧
+      (.RPC_RESPONSE_STANDARD_NAME ∈ rules → stdNameBad o false { s0 with name := nn } m = false)) :
+    lint o rules (renameService f.path p0 nn w) = [⟨.SERVICE_SUFFIX, f.path, p0 ++ [1]⟩] := by
+  have h := plant_via_map o rules w .SERVICE_SUFFIX _ _ _ _ rfl hN hr hclean f hf
+    (mapFile (opSvc p0 (fun _ => nn) id)) (fun _ => rfl) _ (fileSvcs_map _ f)
+    (·.1) (fileSvcs_nodup f) (p0, s0) h0
+    (by
+      intro x _ hne hg
+      simpa only [tauSvc, mapSvc_opSvc, if_neg hne] using hg)
+    (by
+      simp only [tauSvc, mapSvc_opSvc, if_pos, svcWith, hbadname]; rfl)
+    (by
+      intro r hr hner
+      apply frame_opSvc o w f hf p0 s0 h0 (fun _ => nn) id r _ _ (cleanB_rule hclean hr)
+      · cases r <;> simp [svcLocalGood, svcWith] at hner ⊢
+        case SERVICE_PASCAL_CASE => exact fun _ => hcase hr
+      · intro m hm
+        cases r <;> simp only [rpcLocalGood, imp_self]
+        case RPC_REQUEST_STANDARD_NAME =>
+          intro _
+          have := (hstd m hm).1 hr
+          simp only [svcWith, id] at this ⊢
+          rw [this]; rfl
+        case RPC_RESPONSE_STANDARD_NAME =>
+          intro _
+          have := (hstd m hm).2 hr
+          simp only [svcWith, id] at this ⊢
+          rw [this]; rfl)
+  simpa [renameService, plantDecl, tauSvc, mapSvc_opSvc, svcWith, ann, mapFile] using h
+
+/-- **Deleting the comment of a service**: exactly COMMENT_SERVICE. -/
+theorem plant_service_comment (o : Options) (rules : List Rule) (w : Schema) (f : File)
+    (hN : rules.Nodup) (hclean : cleanB o rules w = true) (hr : .COMMENT_SERVICE ∈ rules)
+    (hf : FileAt w f) (p0 : List Nat) (s0 : Service) (h0 : (p0, s0) ∈ fileSvcs f)
+    (c : Str) (hbadc : validLeadingComment o.commentExcludes c = false) :
+    lint o rules (setServiceComment f.path p0 c w) = [⟨.COMMENT_SERVICE, f.path, p0⟩] := by
+  have h := plant_via_map o rules w .COMMENT_SERVICE _ _ _ _ rfl hN hr hclean f hf
+    (mapFile (opSvc p0 id (fun _ => c))) (fun _ => rfl) _ (fileSvcs_map _ f)
+    (·.1) (fileSvcs_nodup f) (p0, s0) h0
+    (by
+      intro x _ hne hg
+      simpa only [tauSvc, mapSvc_opSvc, if_neg hne] using hg)
+    (by simp only [tauSvc, mapSvc_opSvc, if_pos, svcWith, hbadc]; rfl)
+    (by
+      intro r hr hner
+      apply frame_opSvc o w f hf p0 s0 h0 id (fun _ => c) r _ _ (cleanB_rule hclean hr)
+      · cases r <;> simp [svcLocalGood, svcWith] at hner ⊢
+      · intro m _
+        cases r <;> simp only [rpcLocalGood, imp_self]
+        all_goals (rw [stdNameBad_congr o _ s0 (svcWith s0 id (fun _ => c)) m rfl]; exact id))
+  simpa [setServiceComment, plantDecl, tauSvc, mapSvc_opSvc, svcWith, ann, mapFile] using h
+
+/-! ### RPCs -/
+
+/-- **Renaming an RPC** to a non-PascalCase name with the same PascalCase form (`GetFoo` → `getFoo`, so
+    the standard request/response names still fit): exactly RPC_PASCAL_CASE at its name. -/
+theorem plant_rpc_name (o : Options) (rules : List Rule) (w : Schema) (f : File)
+    (hN : rules.Nodup) (hclean : cleanB o rules w = true) (hr : .RPC_PASCAL_CASE ∈ rules)
+    (hf : FileAt w f) (q0 : List Nat) (s0 : Service) (m0 : Rpc) (h0 : (q0, s0, m0) ∈ fileRpcs f)
+    (nn : Str) (hbadname : NotPascal nn)
+    (hstd : (.RPC_REQUEST_STANDARD_NAME ∈ rules ∨ .RPC_RESPONSE_STANDARD_NAME ∈ rules) →
+      toPascalCase nn = toPascalCase m0.name) :
+    lint o rules (renameRpc f.path q0 nn w) = [⟨.RPC_PASCAL_CASE, f.path, q0 ++ [1]⟩] := by
+  have h := plant_via_map o rules w .RPC_PASCAL_CASE _ _ _ _ rfl hN hr hclean f hf
+    (mapFile (opRpc q0 (fun m => {m with name := nn}))) (fun _ => rfl) _ (fileRpcs_map _ f)
+    (·.1) (fileRpcs_nodup f) (q0, s0, m0) h0
+    (by
+      intro x _ hne hg
+      simpa only [tauRpc, opRpc, if_neg hne] using hg)
+    (by
+      simp only [tauRpc, opRpc, if_pos]
+      exact notPascal_bad hbadname)
+    (by
+      intro r hr hner
+      apply frame_opRpc o w f hf q0 s0 m0 h0 (fun m => {m with name := nn}) r _ (fun _ => ⟨rfl, rfl⟩)
+        (cleanB_rule hclean hr)
+      cases r <;> simp only [rpcLocalGood, imp_self] <;> simp at hner
+      case RPC_REQUEST_STANDARD_NAME =>
+        rw [stdNameBad_congr_rpc o true s0 m0 {m0 with name := nn} (hstd (Or.inl hr)) rfl rfl]; exact id
+      case RPC_RESPONSE_STANDARD_NAME =>
+        rw [stdNameBad_congr_rpc o false s0 m0 {m0 with name := nn} (hstd (Or.inr hr)) rfl rfl]; exact id)
+  simpa [renameRpc, plantDecl, tauRpc, opRpc, ann, mapFile] using h
+
+/-- **Deleting the comment of an RPC**: exactly COMMENT_RPC. -/
+theorem plant_rpc_comment (o : Options) (rules : List Rule) (w : Schema) (f : File)
+    (hN : rules.Nodup) (hclean : cleanB o rules w = true) (hr : .COMMENT_RPC ∈ rules)
+    (hf : FileAt w f) (q0 : List Nat) (s0 : Service) (m0 : Rpc) (h0 : (q0, s0, m0) ∈ fileRpcs f)
+    (c : Str) (hbadc : validLeadingComment o.commentExcludes c = false) :
+    lint o rules (setRpcComment f.path q0 c w) = [⟨.COMMENT_RPC, f.path, q0⟩] := by
+  have h := plant_via_map o rules w .COMMENT_RPC _ _ _ _ rfl hN hr hclean f hf
+    (mapFile (opRpc q0 (fun m => {m with comment := c}))) (fun _ => rfl) _ (fileRpcs_map _ f)
+    (·.1) (fileRpcs_nodup f) (q0, s0, m0) h0
+    (by
+      intro x _ hne hg
+      simpa only [tauRpc, opRpc, if_neg hne] using hg)
+    (by simp only [tauRpc, opRpc, if_pos, hbadc]; rfl)
+    (by
+      intro r hr hner
+      apply frame_opRpc o w f hf q0 s0 m0 h0 (fun m => {m with comment := c}) r _ (fun _ => ⟨rfl, rfl⟩)
+        (cleanB_rule hclean hr)
+      cases r <;> simp only [rpcLocalGood, imp_self] <;> simp at hner
+      all_goals (rw [stdNameBad_congr_rpc o _ s0 m0 {m0 with comment := c} rfl rfl rfl]; exact id))
+  simpa [setRpcComment, plantDecl, tauRpc, opRpc, ann, mapFile] using h
+
+/-- **Adding `stream` to the request**: exactly RPC_NO_CLIENT_STREAMING at the RPC. -/
+theorem plant_rpc_client_streaming (o : Options) (rules : List Rule) (w : Schema) (f : File)
+    (hN : rules.Nodup) (hclean : cleanB o rules w = true) (hr : .RPC_NO_CLIENT_STREAMING ∈ rules)
+    (hf : FileAt w f) (q0 : List Nat) (s0 : Service) (m0 : Rpc) (h0 : (q0, s0, m0) ∈ fileRpcs f) :
+    lint o rules (setClientStreaming f.path q0 w) = [⟨.RPC_NO_CLIENT_STREAMING, f.path, q0⟩] := by
+  have h := plant_via_map o rules w .RPC_NO_CLIENT_STREAMING _ _ _ _ rfl hN hr hclean f hf
+    (mapFile (opRpc q0 (fun m => {m with clientStreaming := true}))) (fun _ => rfl) _ (fileRpcs_map _ f)
+    (·.1) (fileRpcs_nodup f) (q0, s0, m0) h0
+    (by
+      intro x _ hne hg
+      simpa only [tauRpc, opRpc, if_neg hne] using hg)
+    (by simp only [tauRpc, opRpc, if_pos])
+    (by
+      intro r hr hner
+      apply frame_opRpc o w f hf q0 s0 m0 h0 (fun m => {m with clientStreaming := true}) r _
+        (fun _ => ⟨rfl, rfl⟩) (cleanB_rule hclean hr)
+      cases r <;> simp only [rpcLocalGood, imp_self] <;> simp at hner
+      all_goals (rw [stdNameBad_congr_rpc o _ s0 m0 {m0 with clientStreaming := true} rfl rfl rfl]; exact id))
+  simpa [setClientStreaming, plantDecl, tauRpc, opRpc, ann, mapFile] using h
+
+/-- **Adding `stream` to the response**: exactly RPC_NO_SERVER_STREAMING at the RPC. -/
+theorem plant_rpc_server_streaming (o : Options) (rules : List Rule) (w : Schema) (f : File)
+    (hN : rules.Nodup) (hclean : cleanB o rules w = true) (hr : .RPC_NO_SERVER_STREAMING ∈ rules)
+    (hf : FileAt w f) (q0 : List Nat) (s0 : Service) (m0 : Rpc) (h0 : (q0, s0, m0) ∈ fileRpcs f) :
+    lint o rules (setServerStreaming f.path q0 w) = [⟨.RPC_NO_SERVER_STREAMING, f.path, q0⟩] := by
+  have h := plant_via_map o rules w .RPC_NO_SERVER_STREAMING _ _ _ _ rfl hN hr hclean f hf
+    (mapFile (opRpc q0 (fun m => {m with serverStreaming := true}))) (fun _ => rfl) _ (fileRpcs_map _ f)
+    (·.1) (fileRpcs_nodup f) (q0, s0, m0) h0
+    (by
+      intro x _ hne hg
+      simpa only [tauRpc, opRpc, if_neg hne] using hg)
+    (by simp only [tauRpc, opRpc, if_pos])
+    (by
+      intro r hr hner
+      apply frame_opRpc o w f hf q0 s0 m0 h0 (fun m => {m with serverStreaming := true}) r _
+        (fun _ => ⟨rfl, rfl⟩) (cleanB_rule hclean hr)
+      cases r <;> simp only [rpcLocalGood, imp_self] <;> simp at hner
+      all_goals (rw [stdNameBad_congr_rpc o _ s0 m0 {m0 with serverStreaming := true} rfl rfl rfl]; exact id))
+  simpa [setServerStreaming, plantDecl, tauRpc, opRpc, ann, mapFile] using h
+
+/-! ### imports, syntax -/
+
+/-- **Making an import `public`**: exactly IMPORT_NO_PUBLIC at the import statement. -/
+theorem plant_import_public (o : Options) (rules : List Rule) (w : Schema) (f : File)
+    (hN : rules.Nodup) (hclean : cleanB o rules w = true) (hr : .IMPORT_NO_PUBLIC ∈ rules)
+    (hf : FileAt w f) (i0 : Nat) (imp0 : Import) (h0 : (i0, imp0) ∈ indexed f.imports) :
+    lint o rules (setImportPublic f.path i0 w) = [⟨.IMPORT_NO_PUBLIC, f.path, [3, i0]⟩] := by
+  have h := plant_via_map o rules w .IMPORT_NO_PUBLIC _ _ _ _ rfl hN hr hclean f hf
+    (opImport i0 (fun imp => {imp with isPublic := true})) (fun _ => rfl) _ (indexed_opImport _ _ f)
+    (fun x => [x.1]) (indexed_imports_nodup f) (i0, imp0) h0
+    (by
+      intro x _ hne hg
+      have : x.1 ≠ i0 := fun e => hne (by rw [e])
+      simpa only [if_neg this] using hg)
+    (by simp only [if_pos])
+    (by
+      intro r hr hner
+      apply frame_opImport o w f hf i0 imp0 h0 (fun imp => {imp with isPublic := true}) (fun _ => rfl) r _
+        (cleanB_rule hclean hr)
+      cases r <;> simp [importLocalGood] at hner ⊢)
+  simpa [setImportPublic, ann, opImport] using h
+
+/-- **An import nothing of which is used**: exactly IMPORT_USED at the import statement. -/
+theorem plant_import_unused (o : Options) (rules : List Rule) (w : Schema) (f : File)
+    (hN : rules.Nodup) (hclean : cleanB o rules w = true) (hr : .IMPORT_USED ∈ rules)
+    (hf : FileAt w f) (i0 : Nat) (imp0 : Import) (h0 : (i0, imp0) ∈ indexed f.imports) :
+    lint o rules (setImportUnused f.path i0 w) = [⟨.IMPORT_USED, f.path, [3, i0]⟩] := by
+  have h := plant_via_map o rules w .IMPORT_USED _ _ _ _ rfl hN hr hclean f hf
+    (opImport i0 (fun imp => {imp with isUnused := true})) (fun _ => rfl) _ (indexed_opImport _ _ f)
+    (fun x => [x.1]) (indexed_imports_nodup f) (i0, imp0) h0
+    (by
+      intro x _ hne hg
+      have : x.1 ≠ i0 := fun e => hne (by rw [e])
+      simpa only [if_neg this] using hg)
+    (by simp only [if_pos])
+    (by
+      intro r hr hner
+      apply frame_opImport o w f hf i0 imp0 h0 (fun imp => {imp with isUnused := true}) (fun _ => rfl) r _
+        (cleanB_rule hclean hr)
+      cases r <;> simp [importLocalGood] at hner ⊢)
+  simpa [setImportUnused, ann, opImport] using h
+
+/-- **A weak import is never reported** (known finding, for every workspace): making any import
+    of a Clean workspace weak leaves lint silent, IMPORT_NO_WEAK configured or not. -/
+theorem plant_import_weak_silent (o : Options) (rules : List Rule) (w : Schema) (f : File)
+    (hclean : cleanB o rules w = true)
+    (hf : FileAt w f) (i0 : Nat) (imp0 : Import) (h0 : (i0, imp0) ∈ indexed f.imports) :
+    lint o rules (setImportWeak f.path i0 w) = [] := by
+  apply clean_no_annotations_aux
+  apply List.all_eq_true.mpr
+  intro r hr
+  apply frame_opImport o w f hf i0 imp0 h0 (fun imp => {imp with isWeak := true}) (fun _ => rfl) r _
+    (cleanB_rule hclean hr)
+  cases r <;> simp [importLocalGood]
+
+/-- **Deleting the `syntax` line**: exactly SYNTAX_SPECIFIED (reported without a location). -/
+theorem plant_syntax_unspecified (o : Options) (rules : List Rule) (w : Schema) (f : File)
+    (hN : rules.Nodup) (hclean : cleanB o rules w = true) (hr : .SYNTAX_SPECIFIED ∈ rules)
+    (hf : FileAt w f) :
+    lint o rules (unsetSyntax f.path w) = [⟨.SYNTAX_SPECIFIED, f.path, []⟩] := by
+  have h := plant_via_map o rules w .SYNTAX_SPECIFIED _ _ _ _ rfl hN hr hclean f hf
+    noSyntax (fun _ => rfl) noSyntax rfl
+    (fun _ => []) (by simp) f (by simp)
+    (by intro x _ hne; exact absurd rfl hne)
+    rfl
+    (by
+      intro r hr hner
+      exact frame_unsetSyntax o w f hf r hner (cleanB_rule hclean hr))
+  simpa [unsetSyntax, ann, noSyntax] using h
+
+/-- **Changing the request type of an RPC** (to a message with a non-standard name, or to the
+    request type of another RPC).  Exactly: RPC_REQUEST_STANDARD_NAME at that RPC's request type,
+    plus — when RPC_REQUEST_RESPONSE_UNIQUE is configured — the annotation of every RPC that
+    violates uniqueness (`RpcViolation`) in the method table in which that one row got the new
+    request type.  Nothing else, for no other rule. -/
+theorem plant_rpc_request_type (o : Options) (rules : List Rule) (w : Schema) (f : File)
+    (hclean : cleanB o rules w = true) (hr : .RPC_REQUEST_STANDARD_NAME ∈ rules)
+    (hf : FileAt w f) (q0 : List Nat) (s0 : Service) (m0 : Rpc) (h0 : (q0, s0, m0) ∈ fileRpcs f)
+    (t : Str) (hbad : stdNameBad o true s0 { m0 with inType := t } = true) (a : Annotation) :
+    a ∈ lint o rules (setRequestType f.path q0 t w) ↔
+      a = ⟨.RPC_REQUEST_STANDARD_NAME, f.path, q0 ++ [2]⟩ ∨
+      (.RPC_REQUEST_RESPONSE_UNIQUE ∈ rules ∧
+        ∃ x ∈ (rpcTable w).map (fun x => if x.file = f.path ∧ x.path = q0 then { x with inType := t } else x),
+          a = x.ann ∧ RpcViolation o
+            ((rpcTable w).map (fun x => if x.file = f.path ∧ x.path = q0 then { x with inType := t } else x)) x) := by
+  have hstd : runRule o (setRequestType f.path q0 t w) .RPC_REQUEST_STANDARD_NAME =
+      [⟨.RPC_REQUEST_STANDARD_NAME, f.path, q0 ++ [2]⟩] := by
+    have h := runRule_plant_via_map o w .RPC_REQUEST_STANDARD_NAME _ _ _ _ rfl (cleanB_rule hclean hr) f hf
+      (mapFile (opRpc q0 (fun m => {m with inType := t}))) (fun _ => rfl) _ (fileRpcs_map _ f)
+      (·.1) (fileRpcs_nodup f) (q0, s0, m0) h0
+      (by
+        intro x _ hne hg
+        simp only [tauRpc]
+        rw [stdNameBad_congr o true x.2.1 _ _ (mapSvc_opRpc_name q0 _ _ _)]
+        simp only [opRpc, if_neg hne]
+        exact hg)
+      (by
+        simp only [tauRpc]
+        rw [stdNameBad_congr o true s0 _ _ (mapSvc_opRpc_name q0 _ _ _)]
+        simp only [opRpc, if_pos]
+        exact hbad)
+    simpa [setRequestType, plantDecl, tauRpc, opRpc, ann, mapFile] using h
+  have huniq : runRule o (setRequestType f.path q0 t w) .RPC_REQUEST_RESPONSE_UNIQUE =
+      rpcUniqueT o ((rpcTable w).map (fun x => if x.file = f.path ∧ x.path = q0 then { x with inType := t } else x)) := by
+    rw [runRule_global o _ _ rfl]
+    show rpcUniqueT o (rpcTable (plantDecl f.path (opRpc q0 (fun m => {m with inType := t})) w)) = _
+    rw [rpcTable_opRpc w f q0 _ (fun x => { x with inType := t }) (fun _ _ => rfl)]
+  rw [mem_lint_of_dirty o rules _ [.RPC_REQUEST_STANDARD_NAME, .RPC_REQUEST_RESPONSE_UNIQUE]]
+  · constructor
+    · rintro ⟨r, hrr, hd, ha⟩
+      simp only [List.mem_cons, List.not_mem_nil, or_false] at hd
+      rcases hd with rfl | rfl
+      · rw [hstd] at ha; exact Or.inl (by simpa using ha)
+      · rw [huniq] at ha
+        exact Or.inr ⟨hrr, (mem_rpcUniqueT_iff o _ a).mp ha⟩
+    · rintro (rfl | ⟨hu, hx⟩)
+      · exact ⟨_, hr, by simp, by rw [hstd]; simp⟩
+      · exact ⟨_, hu, by simp, by rw [huniq]; exact (mem_rpcUniqueT_iff o _ a).mpr hx⟩
+  · intro r hrr hnd
+    simp only [List.mem_cons, List.not_mem_nil, or_false, not_or] at hnd
+    apply frame_opRpc o w f hf q0 s0 m0 h0 (fun m => {m with inType := t}) r _ (fun e => absurd e hnd.2)
+      (cleanB_rule hclean hrr)
+    cases r <;> simp only [rpcLocalGood, imp_self] <;> simp at hnd
+    rw [stdNameBad_resp_congr o s0 m0 {m0 with inType := t} rfl rfl]; exact id
+
+/-- **Changing the response type of an RPC**: RPC_RESPONSE_STANDARD_NAME at that RPC's response
+    type, plus the uniqueness violations of the new method table. -/
+theorem plant_rpc_response_type (o : Options) (rules : List Rule) (w : Schema) (f : File)
+    (hclean : cleanB o rules w = true) (hr : .RPC_RESPONSE_STANDARD_NAME ∈ rules)
+    (hf : FileAt w f) (q0 : List Nat) (s0 : Service) (m0 : Rpc) (h0 : (q0, s0, m0) ∈ fileRpcs f)
+    (t : Str) (hbad : stdNameBad o false s0 { m0 with outType := t } = true) (a : Annotation) :
+    a ∈ lint o rules (setResponseType f.path q0 t w) ↔
+      a = ⟨.RPC_RESPONSE_STANDARD_NAME, f.path, q0 ++ [3]⟩ ∨
+      (.RPC_REQUEST_RESPONSE_UNIQUE ∈ rules ∧
+        ∃ x ∈ (rpcTable w).map (fun x => if x.file = f.path ∧ x.path = q0 then { x with outType := t } else x),
+          a = x.ann ∧ RpcViolation o
+            ((rpcTable w).map (fun x => if x.file = f.path ∧ x.path = q0 then { x with outType := t } else x)) x) := by
+  have hstd : runRule o (setResponseType f.path q0 t w) .RPC_RESPONSE_STANDARD_NAME =
+      [⟨.RPC_RESPONSE_STANDARD_NAME, f.path, q0 ++ [3]⟩] := by
+    have h := runRule_plant_via_map o w .RPC_RESPONSE_STANDARD_NAME _ _ _ _ rfl (cleanB_rule hclean hr) f hf
+      (mapFile (opRpc q0 (fun m => {m with outType := t}))) (fun _ => rfl) _ (fileRpcs_map _ f)
+      (·.1) (fileRpcs_nodup f) (q0, s0, m0) h0
+      (by
+        intro x _ hne hg
+        simp only [tauRpc]
+        rw [stdNameBad_congr o false x.2.1 _ _ (mapSvc_opRpc_name q0 _ _ _)]
+        simp only [opRpc, if_neg hne]
+        exact hg)
+      (by
+        simp only [tauRpc]
+        rw [stdNameBad_congr o false s0 _ _ (mapSvc_opRpc_name q0 _ _ _)]
+        simp only [opRpc, if_pos]
+        exact hbad)
+    simpa [setResponseType, plantDecl, tauRpc, opRpc, ann, mapFile] using h
+  have huniq : runRule o (setResponseType f.path q0 t w) .RPC_REQUEST_RESPONSE_UNIQUE =
+      rpcUniqueT o ((rpcTable w).map (fun x => if x.file = f.path ∧ x.path = q0 then { x with outType := t } else x)) := by
+    rw [runRule_global o _ _ rfl]
+    show rpcUniqueT o (rpcTable (plantDecl f.path (opRpc q0 (fun m => {m with outType := t})) w)) = _
+    rw [rpcTable_opRpc w f q0 _ (fun x => { x with outType := t }) (fun _ _ => rfl)]
+  rw [mem_lint_of_dirty o rules _ [.RPC_RESPONSE_STANDARD_NAME, .RPC_REQUEST_RESPONSE_UNIQUE]]
+  · constructor
+    · rintro ⟨r, hrr, hd, ha⟩
+      simp only [List.mem_cons, List.not_mem_nil, or_false] at hd
+      rcases hd with rfl | rfl
+      · rw [hstd] at ha; exact Or.inl (by simpa using ha)
+      · rw [huniq] at ha
+        exact Or.inr ⟨hrr, (mem_rpcUniqueT_iff o _ a).mp ha⟩
+    · rintro (rfl | ⟨hu, hx⟩)
+      · exact ⟨_, hr, by simp, by rw [hstd]; simp⟩
+      · exact ⟨_, hu, by simp, by rw [huniq]; exact (mem_rpcUniqueT_iff o _ a).mpr hx⟩
+  · intro r hrr hnd
+    simp only [List.mem_cons, List.not_mem_nil, or_false, not_or] at hnd
+    apply frame_opRpc o w f hf q0 s0 m0 h0 (fun m => {m with outType := t}) r _ (fun e => absurd e hnd.2)
+      (cleanB_rule hclean hrr)
+    cases r <;> simp only [rpcLocalGood, imp_self] <;> simp at hnd
+    rw [stdNameBad_req_congr o s0 m0 {m0 with outType := t} rfl rfl]; exact id
+
+/-- **The same message for two RPCs.**  Giving the RPC at `q0` the request type `t` that another
+    RPC `y` already uses (as request or response; `t` not exempted by an allow_google_protobuf_empty_*
+    option) makes RPC_REQUEST_RESPONSE_UNIQUE report BOTH RPCs. -/
+theorem plant_rpc_reuse_detected (o : Options) (rules : List Rule) (w : Schema) (f : File)
+    (hclean : cleanB o rules w = true) (hr : .RPC_REQUEST_STANDARD_NAME ∈ rules)
+    (hu : .RPC_REQUEST_RESPONSE_UNIQUE ∈ rules)
+    (hf : FileAt w f) (q0 : List Nat) (s0 : Service) (m0 : Rpc) (h0 : (q0, s0, m0) ∈ fileRpcs f)
+    (t : Str) (hbad : stdNameBad o true s0 { m0 with inType := t } = true)
+    (y : RpcRow) (hy : y ∈ rpcTable w) (hother : ¬(y.file = f.path ∧ y.path = q0)) (hyt : usesType t y = true)
+    (hne : ¬(t = emptyType ∧ (o.rpcAllowGoogleProtobufEmptyRequests = true ∨
+      o.rpcAllowGoogleProtobufEmptyResponses = true))) :
+    (⟨.RPC_REQUEST_RESPONSE_UNIQUE, f.path, q0⟩ : Annotation) ∈ lint o rules (setRequestType f.path q0 t w) ∧
+    y.ann ∈ lint o rules (setRequestType f.path q0 t w) := by
+  have hx0 := rpcRow_mem w f hf q0 s0 m0 h0
+  let φ : RpcRow → RpcRow := fun x => if x.file = f.path ∧ x.path = q0 then { x with inType := t } else x
+  have hx0' : (⟨f.path, q0, t, m0.outType⟩ : RpcRow) ∈ (rpcTable w).map φ :=
+    List.mem_map.mpr ⟨_, hx0, by simp [φ]⟩
+  have hy' : y ∈ (rpcTable w).map φ := List.mem_map.mpr ⟨y, hy, by simp only [φ, if_neg hother]⟩
+  have hcnt : 2 ≤ (((rpcTable w).map φ).filter (usesType t)).length := by
+    apply two_le_length_of_mem _ (⟨f.path, q0, t, m0.outType⟩ : RpcRow) y
+    · exact List.mem_filter.mpr ⟨hx0', by simp [usesType]⟩
+    · exact List.mem_filter.mpr ⟨hy', hyt⟩
+    · intro e
+      apply hother
+      rw [← e]; exact ⟨rfl, rfl⟩
+  constructor
+  · apply (plant_rpc_request_type o rules w f hclean hr hf q0 s0 m0 h0 t hbad _).mpr
+    exact Or.inr ⟨hu, _, hx0', rfl, Or.inr ⟨t, by simp [usesType], hcnt, Or.inl hne⟩⟩
+  · apply (plant_rpc_request_type o rules w f hclean hr hf q0 s0 m0 h0 t hbad _).mpr
+    exact Or.inr ⟨hu, y, hy', rfl, Or.inr ⟨t, hyt, hcnt, Or.inl hne⟩⟩
+
+/-- **The same message as request and response of one RPC** (response type := its own request
+    type; `rpc_allow_same_request_response` off, not the doubly-allowed google.protobuf.Empty):
+    RPC_REQUEST_RESPONSE_UNIQUE reports that RPC. -/
+theorem plant_rpc_same_type_detected (o : Options) (rules : List Rule) (w : Schema) (f : File)
+    (hclean : cleanB o rules w = true) (hr : .RPC_RESPONSE_STANDARD_NAME ∈ rules)
+    (hu : .RPC_REQUEST_RESPONSE_UNIQUE ∈ rules)
+    (hf : FileAt w f) (q0 : List Nat) (s0 : Service) (m0 : Rpc) (h0 : (q0, s0, m0) ∈ fileRpcs f)
+    (hbad : stdNameBad o false s0 { m0 with outType := m0.inType } = true)
+    (hsame : o.rpcAllowSameRequestResponse = false)
+    (hne : ¬(m0.inType = emptyType ∧ o.rpcAllowGoogleProtobufEmptyRequests = true ∧
+      o.rpcAllowGoogleProtobufEmptyResponses = true)) :
+    (⟨.RPC_REQUEST_RESPONSE_UNIQUE, f.path, q0⟩ : Annotation) ∈
+      lint o rules (setResponseType f.path q0 m0.inType w) := by
+  have hx0 := rpcRow_mem w f hf q0 s0 m0 h0
+  apply (plant_rpc_response_type o rules w f hclean hr hf q0 s0 m0 h0 m0.inType hbad _).mpr
+  refine Or.inr ⟨hu, ⟨f.path, q0, m0.inType, m0.inType⟩, List.mem_map.mpr ⟨_, hx0, by simp⟩, rfl,
+    Or.inl ⟨hsame, rfl, hne⟩⟩
+
+/-- **Changing the package statement of one file** to `np` (a package no other target file has).
+    The annotations are exactly: PACKAGE_DEFINED if `np` is empty; otherwise PACKAGE_DIRECTORY_MATCH
+    if the directory is not `np` with dots as slashes, PACKAGE_LOWER_SNAKE_CASE if `np` is not its
+    lower_snake_case form, PACKAGE_VERSION_SUFFIX if `np` has no version suffix — each at the
+    package statement of that file —, and DIRECTORY_SAME_PACKAGE at every target file of that
+    directory when the directory holds another target file.  Nothing else.
+    PACKAGE_NO_IMPORT_CYCLE is NOT framed: splitting a package can close a package cycle (the
+    harness computes that side effect as `pkgCycles`), so its annotations on the new workspace
+    appear in the statement as they are coded (`importCycle`, no independent specification). -/
+theorem plant_package (o : Options) (rules : List Rule) (w : Schema) (f : File)
+    (hclean : cleanB o rules w = true) (hf : FileAt w f) (np : Str)
+    (hfresh : ∀ g ∈ nonImport w, g.path ≠ f.path → g.pkg ≠ np)
+    (hstable : .STABLE_PACKAGE_NO_IMPORT_UNSTABLE ∈ rules → isStable np = none ∨ isStable np = isStable f.pkg)
+    (a : Annotation) :
+    a ∈ lint o rules (setPackage f.path np w) ↔
+      (.PACKAGE_DEFINED ∈ rules ∧ np = [] ∧ a = ⟨.PACKAGE_DEFINED, f.path, []⟩) ∨
+      (.PACKAGE_DIRECTORY_MATCH ∈ rules ∧ np ≠ [] ∧ fileDir f ≠ replaceDots np ∧
+        a = ⟨.PACKAGE_DIRECTORY_MATCH, f.path, [2]⟩) ∨
+      (.PACKAGE_LOWER_SNAKE_CASE ∈ rules ∧ np ≠ [] ∧ np ≠ pkgLowerSnake np ∧
+        a = ⟨.PACKAGE_LOWER_SNAKE_CASE, f.path, [2]⟩) ∨
+      (.PACKAGE_VERSION_SUFFIX ∈ rules ∧ np ≠ [] ∧ versionForPackage false np = none ∧
+        a = ⟨.PACKAGE_VERSION_SUFFIX, f.path, [2]⟩) ∨
+      (.DIRECTORY_SAME_PACKAGE ∈ rules ∧ (∃ g0 ∈ nonImport w, g0.path ≠ f.path ∧ fileDir g0 = fileDir f) ∧
+        ∃ g ∈ nonImport (setPackage f.path np w), fileDir g = fileDir f ∧
+          a = ann .DIRECTORY_SAME_PACKAGE g (pkgLoc g)) ∨
+      (.PACKAGE_NO_IMPORT_CYCLE ∈ rules ∧ a ∈ importCycle (setPackage f.path np w)) := by
+  have hfile := fun r hr bad loc good he =>
+    runRule_file_rule o rules w f hf (setPkg np) (fun _ => rfl) hclean r hr bad loc good he
+  have hdsp : .DIRECTORY_SAME_PACKAGE ∈ rules →
+      (a ∈ runRule o (setPackage f.path np w) .DIRECTORY_SAME_PACKAGE ↔
+        (∃ g0 ∈ nonImport w, g0.path ≠ f.path ∧ fileDir g0 = fileDir f) ∧
+        ∃ g ∈ nonImport (setPackage f.path np w), fileDir g = fileDir f ∧
+          a = ann .DIRECTORY_SAME_PACKAGE g (pkgLoc g)) := by
+    intro hr
+    have hmem := mem_nonImport_plant w f hf (setPkg np) (fun _ => rfl)
+    have hc := cleanB_rule hclean hr
+    rw [cleanRule_group o _ _ _ _ rfl, groupClean_iff] at hc
+    rw [runRule_global o _ _ rfl]
+    simp only [globalRule]
+    rw [mem_groupRule_iff]
+    unfold setPackage
+    constructor
+    · rintro ⟨g, hg, rfl, g', hg', hdir, hpkg⟩
+      rw [hmem] at hg hg'
+      rcases hg with rfl | ⟨hg, pg⟩ <;> rcases hg' with rfl | ⟨hg', pg'⟩
+      · exact absurd rfl hpkg
+      · exact ⟨⟨g', hg', pg', hdir⟩,
+          _, (hmem _).mpr (Or.inl rfl), rfl, rfl⟩
+      · exact ⟨⟨g, hg, pg, hdir.symm⟩,
+          g, (hmem _).mpr (Or.inr ⟨hg, pg⟩), hdir.symm, rfl⟩
+      · exact absurd (hc g' hg' g hg hdir) hpkg
+    · rintro ⟨⟨g0, hg0, p0, d0⟩, g, hg, hdir, rfl⟩
+      refine ⟨g, hg, rfl, ?_⟩
+      rw [hmem] at hg
+      rcases hg with rfl | ⟨hg, pg⟩
+      · exact ⟨g0, (hmem _).mpr (Or.inr ⟨hg0, p0⟩), d0,
+          hfresh g0 hg0 p0⟩
+      · exact ⟨setPkg np f, (hmem _).mpr (Or.inl rfl), hdir.symm,
+          fun e => hfresh g hg pg e.symm⟩
+  rw [mem_lint_of_dirty o rules _ pkgDirty
+    (fun r hr hnd => clean_after_setPackage o rules w f hclean hf np hfresh hstable r hr hnd)]
+  unfold setPackage at hdsp ⊢
+  constructor
+  · rintro ⟨r, hr, hd, ha⟩
+    simp only [pkgDirty, List.mem_cons, List.not_mem_nil, or_false] at hd
+    rcases hd with rfl | rfl | rfl | rfl | rfl | rfl
+    · rw [hfile _ hr _ _ _ rfl] at ha
+      split at ha
+      · next hb =>
+        simp only [List.mem_singleton] at ha
+        exact Or.inl ⟨hr, by simpa [setPkg] using hb, ha⟩
+      · simp at ha
+    · rw [hfile _ hr _ _ _ rfl] at ha
+      split at ha
+      · next hb =>
+        simp only [List.mem_singleton] at ha
+        simp only [setPkg, Bool.and_eq_true, Bool.not_eq_true', bne_iff_ne, ne_eq] at hb
+        refine Or.inr (Or.inl ⟨hr, ?_, hb.2, ha⟩)
+        intro e; rw [e] at hb; simp at hb
+      · simp at ha
+    · rw [hfile _ hr _ _ _ rfl] at ha
+      split at ha
+      · next hb =>
+        simp only [List.mem_singleton] at ha
+        simp only [setPkg, Bool.and_eq_true, Bool.not_eq_true', bne_iff_ne, ne_eq] at hb
+        refine Or.inr (Or.inr (Or.inl ⟨hr, ?_, hb.2, ha⟩))
+        intro e; rw [e] at hb; simp at hb
+      · simp at ha
+    · rw [hfile _ hr _ _ _ rfl] at ha
+      split at ha
+      · next hb =>
+        simp only [List.mem_singleton] at ha
+        simp only [setPkg, Bool.and_eq_true, Bool.not_eq_true', Option.isNone_iff_eq_none] at hb
+        refine Or.inr (Or.inr (Or.inr (Or.inl ⟨hr, ?_, hb.2, ha⟩)))
+        intro e; rw [e] at hb; simp at hb
+      · simp at ha
+    · exact Or.inr (Or.inr (Or.inr (Or.inr (Or.inl ⟨hr, (hdsp hr).mp ha⟩))))
+    · exact Or.inr (Or.inr (Or.inr (Or.inr (Or.inr ⟨hr, by rw [runRule_global o _ _ rfl] at ha; exact ha⟩))))
+  · rintro (⟨hr, hnp, rfl⟩ | ⟨hr, hnp, hdir, rfl⟩ | ⟨hr, hnp, hls, rfl⟩ | ⟨hr, hnp, hv, rfl⟩ | ⟨hr, hx⟩ | ⟨hr, hx⟩)
+    · refine ⟨_, hr, by simp [pkgDirty], ?_⟩
+      rw [hfile _ hr _ _ _ rfl, if_pos (by simp [setPkg, hnp])]
+      simp [ann, setPkg]
+    · refine ⟨_, hr, by simp [pkgDirty], ?_⟩
+      rw [hfile _ hr _ _ _ rfl, if_pos (by
+        simp only [setPkg, Bool.and_eq_true, Bool.not_eq_true', bne_iff_ne, ne_eq]
+        exact ⟨by cases np <;> simp_all, hdir⟩)]
+      simp [ann, setPkg]
+    · refine ⟨_, hr, by simp [pkgDirty], ?_⟩
+      rw [hfile _ hr _ _ _ rfl, if_pos (by
+        simp only [setPkg, Bool.and_eq_true, Bool.not_eq_true', bne_iff_ne, ne_eq]
+        exact ⟨by cases np <;> simp_all, hls⟩)]
+      simp [ann, setPkg]
+    · refine ⟨_, hr, by simp [pkgDirty], ?_⟩
+      rw [hfile _ hr _ _ _ rfl, if_pos (by
+        simp only [setPkg, Bool.and_eq_true, Bool.not_eq_true', Option.isNone_iff_eq_none]
+        exact ⟨by cases np <;> simp_all, hv⟩)]
+      simp [ann, setPkg]
+    · exact ⟨_, hr, by simp [pkgDirty], (hdsp hr).mpr hx⟩
+    · exact ⟨_, hr, by simp [pkgDirty], by rw [runRule_global o _ _ rfl]; exact hx⟩
+
+/-- the version grammar composed with lint: a package whose last component does not start with
+    'v' (`….foo`, `….beta1`) gets PACKAGE_VERSION_SUFFIX at its package statement -/
+theorem plant_package_no_version (o : Options) (rules : List Rule) (w : Schema) (f : File)
+    (hclean : cleanB o rules w = true) (hf : FileAt w f) (pre : Str) (c : Char) (cs : Str)
+    (hc : c ≠ 'v') (hnodot : ∀ x ∈ c :: cs, x ≠ '.')
+    (hfresh : ∀ g ∈ nonImport w, g.path ≠ f.path → g.pkg ≠ pre ++ '.' :: c :: cs)
+    (hstable : .STABLE_PACKAGE_NO_IMPORT_UNSTABLE ∈ rules →
+      isStable (pre ++ '.' :: c :: cs) = none ∨ isStable (pre ++ '.' :: c :: cs) = isStable f.pkg)
+    (hr : .PACKAGE_VERSION_SUFFIX ∈ rules) :
+    (⟨.PACKAGE_VERSION_SUFFIX, f.path, [2]⟩ : Annotation) ∈
+      lint o rules (setPackage f.path (pre ++ '.' :: c :: cs) w) :=
+  (plant_package o rules w f hclean hf _ hfresh hstable _).mpr
+    (Or.inr (Or.inr (Or.inr (Or.inl ⟨hr, by simp, versionForPackage_no_v false pre c cs hc hnodot, rfl⟩))))
+
+/-- the lower_snake_case grammar composed with lint: a package containing an upper-case letter
+    gets PACKAGE_LOWER_SNAKE_CASE at its package statement -/
+theorem plant_package_upper_case (o : Options) (rules : List Rule) (w : Schema) (f : File)
+    (hclean : cleanB o rules w = true) (hf : FileAt w f) (np : Str) (c : Char) (hc : c ∈ np) (hu : isUpper c = true)
+    (hfresh : ∀ g ∈ nonImport w, g.path ≠ f.path → g.pkg ≠ np)
+    (hstable : .STABLE_PACKAGE_NO_IMPORT_UNSTABLE ∈ rules → isStable np = none ∨ isStable np = isStable f.pkg)
+    (hr : .PACKAGE_LOWER_SNAKE_CASE ∈ rules) :
+    (⟨.PACKAGE_LOWER_SNAKE_CASE, f.path, [2]⟩ : Annotation) ∈ lint o rules (setPackage f.path np w) :=
+  (plant_package o rules w f hclean hf np hfresh hstable _).mpr
+    (Or.inr (Or.inr (Or.inl ⟨hr, fun e => by rw [e] at hc; simp at hc,
+      pkgLowerSnake_ne_of_upper np c hc hu, rfl⟩)))
+
+/-- **Files of one package with differing language options.**  Giving option number `k` of one
+    file the value `v` (different from the value it had, which — the workspace being Clean — every
+    file of its package shares), while another target file has the same package: the
+    PACKAGE_SAME_<option> rule annotates EVERY target file of that package at its option (or
+    without location where the option is absent), and lint reports nothing else. -/
+theorem plant_lang_option (o : Options) (rules : List Rule) (w : Schema) (f : File)
+    (hclean : cleanB o rules w = true) (hf : FileAt w f)
+    (r0 : Rule) (k : Nat) (hk : optIndex r0 = some k) (hr : r0 ∈ rules)
+    (v : Str) (hlen : k < f.langOpts.length) (hv : v ≠ optVal f k)
+    (hother : ∃ g0 ∈ nonImport w, g0.path ≠ f.path ∧ g0.pkg = f.pkg) (a : Annotation) :
+    a ∈ lint o rules (setLangOpt f.path k v w) ↔
+      ∃ g ∈ nonImport (setLangOpt f.path k v w), g.pkg = f.pkg ∧ a = ann r0 g (optLoc g k) := by
+  have hmem := mem_nonImport_plant w f hf (setOpt k v) (fun _ => rfl)
+  have hkh : KeepsHdr (setOpt k v) := keepsHdr_of_rfl _ (fun _ => rfl) (fun _ => rfl) (fun _ => rfl) (fun _ => rfl)
+  rw [mem_lint_of_dirty o rules _ [r0]]
+  · have hc := cleanB_rule hclean hr
+    rw [cleanRule_optRule o w r0 k hk, groupClean_iff] at hc
+    have hfv : optVal (setOpt k v f) k = v := optVal_setOpt_eq k v f hlen
+    unfold setLangOpt
+    constructor
+    · rintro ⟨r, _, hd, ha⟩
+      simp only [List.mem_singleton] at hd
+      subst hd
+      rw [runRule_optRule o _ r k hk, mem_groupRule_iff] at ha
+      obtain ⟨g, hg, rfl, g', hg', hpkg, hval⟩ := ha
+      refine ⟨g, hg, ?_, rfl⟩
+      rw [hmem] at hg hg'
+      rcases hg with rfl | ⟨hg, pg⟩ <;> rcases hg' with rfl | ⟨hg', pg'⟩
+      · rfl
+      · rfl
+      · exact hpkg.symm
+      · exact absurd (hc g' hg' g hg hpkg) hval
+    · rintro ⟨g, hg, hpkg, rfl⟩
+      refine ⟨r0, hr, by simp, ?_⟩
+      rw [runRule_optRule o _ r0 k hk, mem_groupRule_iff]
+      refine ⟨g, hg, rfl, ?_⟩
+      obtain ⟨g0, hg0, p0, k0⟩ := hother
+      rw [hmem] at hg
+      rcases hg with rfl | ⟨hg, pg⟩
+      · refine ⟨g0, (hmem _).mpr (Or.inr ⟨hg0, p0⟩), k0, ?_⟩
+        rw [hfv, hc g0 hg0 f hf.nonImport k0]
+        exact fun e => hv e.symm
+      · refine ⟨setOpt k v f, (hmem _).mpr (Or.inl rfl), hpkg.symm, ?_⟩
+        rw [hfv, hc g hg f hf.nonImport hpkg]
+        exact hv
+  · intro r hrr hnd
+    simp only [List.mem_singleton] at hnd
+    have hc := cleanB_rule hclean hrr
+    cases he : elemRule r with
+    | some er =>
+      apply frame_fileOp_elem o w f hf (setOpt k v) (fun _ => rfl) (keepsDecls_setOpt k v) r er he _ hc
+      intro hfr
+      cases r <;> simp [isFileRule] at hfr <;> simp only [fileLocalGood, elemRule] <;> exact id
+    | none =>
+      apply frame_fileOp_global o w f.path (setOpt k v) hkh (keepsDecls_setOpt k v) r he _ hc
+      intro i hi g
+      apply optVal_setOpt_ne
+      intro e
+      subst e
+      have h1 := optRule_of_optIndex r i hi
+      have h2 := optRule_of_optIndex r0 i hk
+      rw [h1] at h2
+      exact hnd (Option.some.inj h2)
+
+/-- **Moving / renaming one file** (a file that no other file imports) to the path `np`.
+    The annotations are exactly: FILE_LOWER_SNAKE_CASE if the new base name is not lower_snake_case;
+    PACKAGE_DIRECTORY_MATCH if the new directory is not the package with dots as slashes — both at
+    the moved file —; and PACKAGE_SAME_DIRECTORY at EVERY target file of the package when another
+    target file of the package lies in a different directory.  Nothing else.
+    (`hnoimp`: nobody imports the old or the new path — otherwise the importers would have to be
+    rewritten too; `hdir`: the files already in the new directory have the same package.) -/
+theorem plant_file_move (o : Options) (rules : List Rule) (w : Schema) (f : File)
+    (hclean : cleanB o rules w = true) (hf : FileAt w f) (np : Str)
+    (hnoimp : ∀ g ∈ w, ∀ imp ∈ g.imports, imp.path ≠ f.path ∧ imp.path ≠ np)
+    (hdir : .DIRECTORY_SAME_PACKAGE ∈ rules → ∀ g ∈ nonImport w, g.path ≠ f.path →
+      fileDir g = fileDir (setPath np f) → g.pkg = f.pkg)
+    (a : Annotation) :
+    a ∈ lint o rules (moveFile f.path np w) ↔
+      (.FILE_LOWER_SNAKE_CASE ∈ rules ∧
+        fileBaseNoExt (setPath np f) ≠ toLowerSnakeCase false (fileBaseNoExt (setPath np f)) ∧
+        a = ⟨.FILE_LOWER_SNAKE_CASE, np, []⟩) ∨
+      (.PACKAGE_DIRECTORY_MATCH ∈ rules ∧ f.pkg ≠ [] ∧ fileDir (setPath np f) ≠ replaceDots f.pkg ∧
+        a = ⟨.PACKAGE_DIRECTORY_MATCH, np, [2]⟩) ∨
+      (.PACKAGE_SAME_DIRECTORY ∈ rules ∧
+        (∃ g0 ∈ nonImport w, g0.path ≠ f.path ∧ g0.pkg = f.pkg ∧ fileDir g0 ≠ fileDir (setPath np f)) ∧
+        ∃ g ∈ nonImport (moveFile f.path np w), g.pkg = f.pkg ∧ a = ann .PACKAGE_SAME_DIRECTORY g (pkgLoc g)) := by
+  have hfile := fun r hr bad loc good he =>
+    runRule_file_rule o rules w f hf (setPath np) (fun _ => rfl) hclean r hr bad loc good he
+  have hpsd : .PACKAGE_SAME_DIRECTORY ∈ rules →
+      (a ∈ runRule o (moveFile f.path np w) .PACKAGE_SAME_DIRECTORY ↔
+        (∃ g0 ∈ nonImport w, g0.path ≠ f.path ∧ g0.pkg = f.pkg ∧ fileDir g0 ≠ fileDir (setPath np f)) ∧
+        ∃ g ∈ nonImport (moveFile f.path np w), g.pkg = f.pkg ∧ a = ann .PACKAGE_SAME_DIRECTORY g (pkgLoc g)) := by
+    intro hr
+    have hmem := mem_nonImport_plant w f hf (setPath np) (fun _ => rfl)
+    have hc := cleanB_rule hclean hr
+    rw [cleanRule_group o _ _ _ _ rfl, groupClean_iff] at hc
+    rw [runRule_global o _ _ rfl]
+    simp only [globalRule]
+    rw [mem_groupRule_iff]
+    unfold moveFile
+    constructor
+    · rintro ⟨g, hg, rfl, g', hg', hpkg, hd⟩
+      rw [hmem] at hg hg'
+      rcases hg with rfl | ⟨hg, pg⟩ <;> rcases hg' with rfl | ⟨hg', pg'⟩
+      · exact absurd rfl hd
+      · exact ⟨⟨g', hg', pg', hpkg, hd⟩, _, (hmem _).mpr (Or.inl rfl), rfl, rfl⟩
+      · exact ⟨⟨g, hg, pg, hpkg.symm, fun e => hd e.symm⟩, g, (hmem _).mpr (Or.inr ⟨hg, pg⟩), hpkg.symm, rfl⟩
+      · exact absurd (hc g' hg' g hg hpkg) hd
+    · rintro ⟨⟨g0, hg0, p0, k0, d0⟩, g, hg, hpkg, rfl⟩
+      refine ⟨g, hg, rfl, ?_⟩
+      rw [hmem] at hg
+      rcases hg with rfl | ⟨hg, pg⟩
+      · exact ⟨g0, (hmem _).mpr (Or.inr ⟨hg0, p0⟩), k0, d0⟩
+      · refine ⟨setPath np f, (hmem _).mpr (Or.inl rfl), hpkg.symm, ?_⟩
+        rw [← hc g0 hg0 g hg (k0.trans hpkg.symm)]
+        exact fun e => d0 e.symm
+  rw [mem_lint_of_dirty o rules _ moveDirty
+    (fun r hr hnd => clean_after_moveFile o rules w f hclean hf np hnoimp hdir r hr hnd)]
+  unfold moveFile at hpsd ⊢
+  constructor
+  · rintro ⟨r, hr, hd, ha⟩
+    simp only [moveDirty, List.mem_cons, List.not_mem_nil, or_false] at hd
+    rcases hd with rfl | rfl | rfl
+    · rw [hfile _ hr _ _ _ rfl] at ha
+      split at ha
+      · next hb =>
+        simp only [List.mem_singleton] at ha
+        exact Or.inl ⟨hr, by simpa using hb, ha⟩
+      · simp at ha
+    · rw [hfile _ hr _ _ _ rfl] at ha
+      split at ha
+      · next hb =>
+        simp only [List.mem_singleton] at ha
+        simp only [Bool.and_eq_true, Bool.not_eq_true', bne_iff_ne, ne_eq] at hb
+        refine Or.inr (Or.inl ⟨hr, ?_, hb.2, ha⟩)
+        intro e
+        have : (setPath np f).pkg = [] := e
+        rw [this] at hb; simp at hb
+      · simp at ha
+    · exact Or.inr (Or.inr ⟨hr, (hpsd hr).mp ha⟩)
+  · rintro (⟨hr, hb, rfl⟩ | ⟨hr, hnp, hdir', rfl⟩ | ⟨hr, hx⟩)
+    · refine ⟨_, hr, by simp [moveDirty], ?_⟩
+      rw [hfile _ hr _ _ _ rfl, if_pos (by simpa using hb)]
+      simp [ann, setPath]
+    · refine ⟨_, hr, by simp [moveDirty], ?_⟩
+      rw [hfile _ hr _ _ _ rfl, if_pos (by
+        simp only [Bool.and_eq_true, Bool.not_eq_true', bne_iff_ne, ne_eq]
+        refine ⟨?_, hdir'⟩
+        show (f.pkg.isEmpty) = false
+        cases hp : f.pkg <;> simp_all)]
+      simp [ann, setPath]
+    · exact ⟨_, hr, by simp [moveDirty], (hpsd hr).mpr hx⟩
+
+/-! ## Non-vacuity: every planting theorem APPLIED to the multi-file workspace `pw`
+
+  `pw` = two target files of package acme.foo.v1 (`a.proto`: top-level enum, message with nested
+  message + nested enum + oneof, four request/response messages, a service with two RPCs, an
+  import, a file-level extension; `b.proto`) and an import-only file full of violations.  All
+  hypotheses are instantiated (by `decide` / explicit witnesses) and the theorem is applied. -/
+
+example : cleanB {} Rule.all pw = true := pw_clean
+example : Rule.all.Nodup := all_nodup
+
+example : lint {} Rule.all (renameEnum pA.path pathColor "color".toList pw) =
+    [⟨.ENUM_PASCAL_CASE, pA.path, pathColor ++ [1]⟩] :=
+  plant_enum_name {} Rule.all pw pA all_nodup pw_clean (by decide) pA_at pathColor pColor pColor_mem
+    "color".toList (Or.inr ⟨'c', "olor".toList, rfl, by decide⟩) (fun _ => by decide)
+
+example : lint {} Rule.all (renameEnum pA.path pathColor "Color_".toList pw) =
+    [⟨.ENUM_PASCAL_CASE, pA.path, pathColor ++ [1]⟩] :=
+  plant_enum_name {} Rule.all pw pA all_nodup pw_clean (by decide) pA_at pathColor pColor pColor_mem
+    "Color_".toList (Or.inl ⟨'_', by decide, by decide⟩) (fun _ => by decide)
+
+example : lint {} Rule.all (setEnumComment pA.path pathColor [] pw) = [⟨.COMMENT_ENUM, pA.path, pathColor⟩] :=
+  plant_enum_comment {} Rule.all pw pA all_nodup pw_clean (by decide) pA_at pathColor pColor pColor_mem
+    [] (validLeadingComment_nil _)
+
+example : lint {} Rule.all (setEnumComment pA.path pathColor " buf:lint:ignore COMMENT_ENUM\n".toList pw) =
+    [⟨.COMMENT_ENUM, pA.path, pathColor⟩] :=
+  plant_enum_comment {} Rule.all pw pA all_nodup pw_clean (by decide) pA_at pathColor pColor pColor_mem
+    _ (by decide)
+
+example : lint {} Rule.all
+    (addAllowAlias pA.path pathColor [⟨"COLOR_CRIMSON".toList, " An alias.\n".toList, 1⟩] pw) =
+    [⟨.ENUM_NO_ALLOW_ALIAS, pA.path, pathColor ++ [3, 2]⟩] :=
+  plant_enum_allow_alias {} Rule.all pw pA all_nodup pw_clean (by decide) pA_at pathColor pColor pColor_mem
+    _ (by decide) (by decide)
+
+example : lint {} Rule.all (swapFirstValues pA.path pathColor pw) =
+    [⟨.ENUM_FIRST_VALUE_ZERO, pA.path, pathColor ++ [2, 0, 2]⟩] :=
+  plant_enum_first_value_nonzero {} Rule.all pw pA all_nodup pw_clean (by decide) pA_at pathColor pColor
+    pColor_mem _ _ [] rfl (by decide)
+
+example : lint {} Rule.all (renameValue pA.path pathRed "COLOR_rED".toList pw) =
+    [⟨.ENUM_VALUE_UPPER_SNAKE_CASE, pA.path, pathRed ++ [1]⟩] :=
+  plant_enum_value_case {} Rule.all pw pA all_nodup pw_clean (by decide) pA_at pathRed pColor _ pRed_mem
+    _ ⟨'r', by decide, by decide⟩ (fun _ => by decide) (fun _ h => absurd h (by decide))
+
+example : lint {} Rule.all (renameValue pA.path pathRed "ZZ_RED".toList pw) =
+    [⟨.ENUM_VALUE_PREFIX, pA.path, pathRed ++ [1]⟩] :=
+  plant_enum_value_prefix {} Rule.all pw pA all_nodup pw_clean (by decide) pA_at pathRed pColor _ pRed_mem
+    _ (by decide) (fun _ => by decide) (fun _ h => absurd h (by decide))
+
+example : lint {} Rule.all (renameValue pA.path pathZero "COLOR_UNKNOWN".toList pw) =
+    [⟨.ENUM_ZERO_VALUE_SUFFIX, pA.path, pathZero ++ [1]⟩] :=
+  plant_enum_zero_value_suffix {} Rule.all pw pA all_nodup pw_clean (by decide) pA_at pathZero pColor _
+    pZero_mem rfl _ (by decide) (fun _ => by decide) (fun _ => by decide)
+
+example : lint {} Rule.all (setValueComment pA.path pathRed [] pw) = [⟨.COMMENT_ENUM_VALUE, pA.path, pathRed⟩] :=
+  plant_enum_value_comment {} Rule.all pw pA all_nodup pw_clean (by decide) pA_at pathRed pColor _ pRed_mem
+    [] (validLeadingComment_nil _)
+
+example : lint {} Rule.all (renameMessage pA.path pathInner "inner_msg".toList pw) =
+    [⟨.MESSAGE_PASCAL_CASE, pA.path, pathInner ++ [1]⟩] :=
+  plant_message_name {} Rule.all pw pA all_nodup pw_clean (by decide) pA_at pathInner pInner pInner_mem
+    rfl _ (Or.inl ⟨'_', by decide, by decide⟩)
+
+example : lint {} Rule.all (setMessageComment pA.path pathInner [] pw) = [⟨.COMMENT_MESSAGE, pA.path, pathInner⟩] :=
+  plant_message_comment {} Rule.all pw pA all_nodup pw_clean (by decide) pA_at pathInner pInner pInner_mem
+    rfl [] (validLeadingComment_nil _)
+
+example : lint {} Rule.all (renameField pA.path pathFooBar "fooBar".toList pw) =
+    [⟨.FIELD_LOWER_SNAKE_CASE, pA.path, pathFooBar ++ [1]⟩] :=
+  plant_field_name {} Rule.all pw pA all_nodup pw_clean (by decide) pA_at pathFooBar (some pOuter) pFooBar
+    pFooBar_mem rfl _ ⟨'B', by decide, by decide⟩ (fun _ => by decide)
+
+example : lint {} Rule.all (renameField pA.path pathFooBar "descriptor".toList pw) =
+    [⟨.FIELD_NO_DESCRIPTOR, pA.path, pathFooBar ++ [1]⟩] :=
+  plant_field_descriptor {} Rule.all pw pA all_nodup pw_clean (by decide) pA_at pathFooBar (some pOuter)
+    pFooBar pFooBar_mem _ (by decide) (fun _ _ => by decide)
+
+example : lint {} Rule.all (setFieldComment pA.path pathFooBar [] pw) = [⟨.COMMENT_FIELD, pA.path, pathFooBar⟩] :=
+  plant_field_comment {} Rule.all pw pA all_nodup pw_clean (by decide) pA_at pathFooBar (some pOuter) pFooBar
+    pFooBar_mem rfl rfl [] (validLeadingComment_nil _)
+
+example : lint {} Rule.all (setFieldRequired pA.path pathFooBar pw) =
+    [⟨.FIELD_NOT_REQUIRED, pA.path, pathFooBar ++ [1]⟩] :=
+  plant_field_required {} Rule.all pw pA all_nodup pw_clean (by decide) pA_at pathFooBar (some pOuter)
+    pFooBar pFooBar_mem
+
+example : lint {} Rule.all (renameOneof pA.path pathChoice "myChoice".toList pw) =
+    [⟨.ONEOF_LOWER_SNAKE_CASE, pA.path, pathChoice ++ [1]⟩] :=
+  plant_oneof_name {} Rule.all pw pA all_nodup pw_clean (by decide) pA_at pathChoice pOuter 0 pChoice
+    pChoice_mem (by decide) _ ⟨'C', by decide, by decide⟩
+
+example : lint {} Rule.all (setOneofComment pA.path pathChoice [] pw) = [⟨.COMMENT_ONEOF, pA.path, pathChoice⟩] :=
+  plant_oneof_comment {} Rule.all pw pA all_nodup pw_clean (by decide) pA_at pathChoice pOuter 0 pChoice
+    pChoice_mem rfl [] (validLeadingComment_nil _)
+
+example : lint {} Rule.all (renameService pA.path pathSvc "fooService".toList pw) =
+    [⟨.SERVICE_PASCAL_CASE, pA.path, pathSvc ++ [1]⟩] :=
+  plant_service_name_case {} Rule.all pw pA all_nodup pw_clean (by decide) pA_at pathSvc pSvc pSvc_mem
+    _ (Or.inr ⟨'f', "ooService".toList, rfl, by decide⟩) (fun _ => by decide) (fun _ => by decide)
+
+example : lint {} Rule.all (renameService pA.path pathSvc "FooSvc".toList pw) =
+    [⟨.SERVICE_SUFFIX, pA.path, pathSvc ++ [1]⟩] :=
+  plant_service_suffix {} Rule.all pw pA all_nodup pw_clean (by decide) pA_at pathSvc pSvc pSvc_mem
+    _ (by decide) (fun _ => by decide) (by decide)
+
+example : lint {} Rule.all (setServiceComment pA.path pathSvc [] pw) = [⟨.COMMENT_SERVICE, pA.path, pathSvc⟩] :=
+  plant_service_comment {} Rule.all pw pA all_nodup pw_clean (by decide) pA_at pathSvc pSvc pSvc_mem
+    [] (validLeadingComment_nil _)
+
+example : lint {} Rule.all (renameRpc pA.path pathList "listFoo".toList pw) =
+    [⟨.RPC_PASCAL_CASE, pA.path, pathList ++ [1]⟩] :=
+  plant_rpc_name {} Rule.all pw pA all_nodup pw_clean (by decide) pA_at pathList pSvc pList pList_mem
+    _ (Or.inr ⟨'l', "istFoo".toList, rfl, by decide⟩) (fun _ => by decide)
+
+example : lint {} Rule.all (setRpcComment pA.path pathList [] pw) = [⟨.COMMENT_RPC, pA.path, pathList⟩] :=
+  plant_rpc_comment {} Rule.all pw pA all_nodup pw_clean (by decide) pA_at pathList pSvc pList pList_mem
+    [] (validLeadingComment_nil _)
+
+example : lint {} Rule.all (setClientStreaming pA.path pathList pw) =
+    [⟨.RPC_NO_CLIENT_STREAMING, pA.path, pathList⟩] :=
+  plant_rpc_client_streaming {} Rule.all pw pA all_nodup pw_clean (by decide) pA_at pathList pSvc pList pList_mem
+
+example : lint {} Rule.all (setServerStreaming pA.path pathList pw) =
+    [⟨.RPC_NO_SERVER_STREAMING, pA.path, pathList⟩] :=
+  plant_rpc_server_streaming {} Rule.all pw pA all_nodup pw_clean (by decide) pA_at pathList pSvc pList pList_mem
+
+example : lint {} Rule.all (setImportPublic pA.path 0 pw) = [⟨.IMPORT_NO_PUBLIC, pA.path, [3, 0]⟩] :=
+  plant_import_public {} Rule.all pw pA all_nodup pw_clean (by decide) pA_at 0 pImp pImp_mem
+
+example : lint {} Rule.all (setImportUnused pA.path 0 pw) = [⟨.IMPORT_USED, pA.path, [3, 0]⟩] :=
+  plant_import_unused {} Rule.all pw pA all_nodup pw_clean (by decide) pA_at 0 pImp pImp_mem
+
+example : lint {} Rule.all (setImportWeak pA.path 0 pw) = [] :=
+  plant_import_weak_silent {} Rule.all pw pA pw_clean pA_at 0 pImp pImp_mem
+
+example : lint {} Rule.all (unsetSyntax pA.path pw) = [⟨.SYNTAX_SPECIFIED, pA.path, []⟩] :=
+  plant_syntax_unspecified {} Rule.all pw pA all_nodup pw_clean (by decide) pA_at
+
+-- a non-standard request type that no other RPC uses: exactly one annotation (the ↔ is applied in
+-- both directions)
+example : (⟨.RPC_REQUEST_STANDARD_NAME, pA.path, pathList ++ [2]⟩ : Annotation) ∈
+    lint {} Rule.all (setRequestType pA.path pathList "acme.foo.v1.ListFooReq".toList pw) :=
+  (plant_rpc_request_type {} Rule.all pw pA pw_clean (by decide) pA_at pathList pSvc pList pList_mem
+    _ (by decide) _).mpr (Or.inl rfl)
+
+example : lint {} Rule.all (setRequestType pA.path pathList "acme.foo.v1.ListFooReq".toList pw) =
+    [⟨.RPC_REQUEST_STANDARD_NAME, pA.path, pathList ++ [2]⟩] := by decide
+
+example : (⟨.RPC_RESPONSE_STANDARD_NAME, pA.path, pathList ++ [3]⟩ : Annotation) ∈
+    lint {} Rule.all (setResponseType pA.path pathList "acme.foo.v1.ListFooReply".toList pw) :=
+  (plant_rpc_response_type {} Rule.all pw pA pw_clean (by decide) pA_at pathList pSvc pList pList_mem
+    _ (by decide) _).mpr (Or.inl rfl)
+
+-- the same request message for two RPCs: both are reported
+example :
+    (⟨.RPC_REQUEST_RESPONSE_UNIQUE, pA.path, pathList⟩ : Annotation) ∈
+      lint {} Rule.all (setRequestType pA.path pathList "acme.foo.v1.GetFooRequest".toList pw) ∧
+    (⟨.RPC_REQUEST_RESPONSE_UNIQUE, pA.path, [6, 0, 2, 0]⟩ : Annotation) ∈
+      lint {} Rule.all (setRequestType pA.path pathList "acme.foo.v1.GetFooRequest".toList pw) :=
+  plant_rpc_reuse_detected {} Rule.all pw pA pw_clean (by decide) (by decide) pA_at pathList pSvc pList pList_mem
+    _ (by decide) ⟨pA.path, [6, 0, 2, 0], pGet.inType, pGet.outType⟩ (by decide) (by decide) (by decide) (by decide)
+
+example : lint {} Rule.all (setRequestType pA.path pathList "acme.foo.v1.GetFooRequest".toList pw) =
+    [⟨.RPC_REQUEST_RESPONSE_UNIQUE, pA.path, [6, 0, 2, 0]⟩, ⟨.RPC_REQUEST_RESPONSE_UNIQUE, pA.path, pathList⟩,
+     ⟨.RPC_REQUEST_STANDARD_NAME, pA.path, pathList ++ [2]⟩] := by decide
+
+-- the same message as request and response of one RPC
+example : (⟨.RPC_REQUEST_RESPONSE_UNIQUE, pA.path, pathList⟩ : Annotation) ∈
+    lint {} Rule.all (setResponseType pA.path pathList pList.inType pw) :=
+  plant_rpc_same_type_detected {} Rule.all pw pA pw_clean (by decide) (by decide) pA_at pathList pSvc pList pList_mem
+    (by decide) rfl (by decide)
+
+-- a package without version suffix (and not matching the directory): exactly the two annotations
+example : (⟨.PACKAGE_VERSION_SUFFIX, pA.path, [2]⟩ : Annotation) ∈
+    lint {} Rule.all (setPackage pA.path "acme.foo_nv".toList pw) :=
+  (plant_package {} Rule.all pw pA pw_clean pA_at "acme.foo_nv".toList (by decide) (fun _ => Or.inl (by decide))
+    _).mpr (Or.inr (Or.inr (Or.inr (Or.inl ⟨by decide, by decide, by decide, rfl⟩))))
+
+example : (⟨.DIRECTORY_SAME_PACKAGE, pB.path, [2]⟩ : Annotation) ∈
+    lint {} Rule.all (setPackage pA.path "acme.foo_nv".toList pw) :=
+  (plant_package {} Rule.all pw pA pw_clean pA_at "acme.foo_nv".toList (by decide) (fun _ => Or.inl (by decide))
+    _).mpr (Or.inr (Or.inr (Or.inr (Or.inr (Or.inl
+      ⟨by decide, ⟨pB, pB_mem, by decide, by decide⟩, pB, .tail _ (.head _), by decide, rfl⟩)))))
+
+example : lint {} Rule.all (setPackage pA.path "acme.foo_nv".toList pw) =
+    [⟨.DIRECTORY_SAME_PACKAGE, pA.path, [2]⟩, ⟨.DIRECTORY_SAME_PACKAGE, pB.path, [2]⟩,
+     ⟨.PACKAGE_DIRECTORY_MATCH, pA.path, [2]⟩, ⟨.PACKAGE_VERSION_SUFFIX, pA.path, [2]⟩] := by decide
+
+example : (⟨.PACKAGE_VERSION_SUFFIX, pA.path, [2]⟩ : Annotation) ∈
+    lint {} Rule.all (setPackage pA.path ("acme".toList ++ '.' :: 'f' :: "oo_nv".toList) pw) :=
+  plant_package_no_version {} Rule.all pw pA pw_clean pA_at "acme".toList 'f' "oo_nv".toList (by decide) (by decide)
+    (by decide) (fun _ => Or.inl (by decide)) (by decide)
+
+example : (⟨.PACKAGE_LOWER_SNAKE_CASE, pA.path, [2]⟩ : Annotation) ∈
+    lint {} Rule.all (setPackage pA.path "Acme.foo.v1".toList pw) :=
+  plant_package_upper_case {} Rule.all pw pA pw_clean pA_at "Acme.foo.v1".toList 'A' (by decide) (by decide)
+    (by decide) (fun _ => Or.inr (by decide)) (by decide)
+
+-- files of one package with differing go_package: every file of the package is annotated
+example : (⟨.PACKAGE_SAME_GO_PACKAGE, pB.path, [8, 11]⟩ : Annotation) ∈
+    lint {} Rule.all (setLangOpt pA.path 1 "example.com/other".toList pw) :=
+  (plant_lang_option {} Rule.all pw pA pw_clean pA_at .PACKAGE_SAME_GO_PACKAGE 1 rfl (by decide)
+    _ (by decide) (by decide) ⟨pB, pB_mem, by decide, by decide⟩ _).mpr ⟨pB, .tail _ (.head _), by decide, rfl⟩
+
+example : lint {} Rule.all (setLangOpt pA.path 1 "example.com/other".toList pw) =
+    [⟨.PACKAGE_SAME_GO_PACKAGE, pA.path, [8, 11]⟩, ⟨.PACKAGE_SAME_GO_PACKAGE, pB.path, [8, 11]⟩] := by decide
+
+-- …and the other direction of the ↔: NOTHING but that rule is reported
+example (a : Annotation) (h : a ∈ lint {} Rule.all (setLangOpt pA.path 1 "example.com/other".toList pw)) :
+    a.rule = .PACKAGE_SAME_GO_PACKAGE := by
+  obtain ⟨g, _, _, rfl⟩ := (plant_lang_option {} Rule.all pw pA pw_clean pA_at .PACKAGE_SAME_GO_PACKAGE 1 rfl (by decide)
+    _ (by decide) (by decide) ⟨pB, pB_mem, by decide, by decide⟩ a).mp h
+  rfl
+
+-- moving a.proto to a directory that does not match its package: the package now lives in two
+-- directories, both files are annotated
+example : (⟨.PACKAGE_DIRECTORY_MATCH, "misc/elsewhere/a.proto".toList, [2]⟩ : Annotation) ∈
+    lint {} Rule.all (moveFile pA.path "misc/elsewhere/a.proto".toList pw) :=
+  (plant_file_move {} Rule.all pw pA pw_clean pA_at _ (by decide) (fun _ => by decide)
+    _).mpr (Or.inr (Or.inl ⟨by decide, by decide, by decide, rfl⟩))
+
+example : (⟨.PACKAGE_SAME_DIRECTORY, pB.path, [2]⟩ : Annotation) ∈
+    lint {} Rule.all (moveFile pA.path "misc/elsewhere/a.proto".toList pw) :=
+  (plant_file_move {} Rule.all pw pA pw_clean pA_at _ (by decide) (fun _ => by decide)
+    _).mpr (Or.inr (Or.inr ⟨by decide, ⟨pB, pB_mem, by decide, by decide, by decide⟩,
+      pB, .tail _ (.head _), by decide, rfl⟩))
+
+example : lint {} Rule.all (moveFile pA.path "misc/elsewhere/a.proto".toList pw) =
+    [⟨.PACKAGE_DIRECTORY_MATCH, "misc/elsewhere/a.proto".toList, [2]⟩,
+     ⟨.PACKAGE_SAME_DIRECTORY, "misc/elsewhere/a.proto".toList, [2]⟩, ⟨.PACKAGE_SAME_DIRECTORY, pB.path, [2]⟩] := by
+  decide
+
+-- a file name that is not lower_snake_case, same directory
+example : (⟨.FILE_LOWER_SNAKE_CASE, "acme/foo/v1/aX.proto".toList, []⟩ : Annotation) ∈
+    lint {} Rule.all (moveFile pA.path "acme/foo/v1/aX.proto".toList pw) :=
+  (plant_file_move {} Rule.all pw pA pw_clean pA_at _ (by decide) (fun _ => by decide)
+    _).mpr (Or.inl ⟨by decide, by decide, rfl⟩)
+
+-- the set-level theorems on a workspace with TWO violations of one rule and a grouping conflict
+example : (⟨.ENUM_PASCAL_CASE, pA.path, pathColor ++ [1]⟩ : Annotation) ∈
+    lint {} Rule.all (renameEnum pA.path pathColor "color".toList (renameEnum pA.path [5, 0] "kind".toList pw)) ∧
+    (⟨.ENUM_PASCAL_CASE, pA.path, [5, 0, 1]⟩ : Annotation) ∈
+    lint {} Rule.all (renameEnum pA.path pathColor "color".toList (renameEnum pA.path [5, 0] "kind".toList pw)) := by
+  decide
 
 end BufProofs.C05
